@@ -57,7 +57,13 @@ EXPLANATION = (
     "compared after substituting single-assignment locals by their definitions; guards are read from the CFG over feasible "
     "paths (a multiply assigned verdict local carries its last definition; a tested helper call contributes what holds at "
     "the helper's returns with that outcome, parameters replaced by the arguments); constructs that moved into private "
-    "helpers are analysed there with the callers' facts."
+    "helpers are analysed there with the callers' facts.  Verdicts may be Enum members, sentinels or fields of result "
+    "objects (NamedTuple / dataclass / tuple): a test on them selects the returns of the deciding helper that produce "
+    "that value, and a guard counts when every such return establishes it.  Callables are followed to where they run "
+    "(functools.partial, lambdas, bound methods in dispatch tables, methods of private parameter-holder objects); "
+    "collections filtered by should_sign carry the consent for each element; token hand-out is typed through lazy "
+    "pipelines (islice, takewhile, dropwhile, map, accumulate, reduce, zip with a bounded range).  add_known_hash may "
+    "write only the registration of the hash it was given."
 )
 
 IC = "ipv8/attestation/identity/community.py"
@@ -82,6 +88,52 @@ def _copy(n):
     return n
 
 
+_CMP_OPS = {"eq": ast.Eq, "ne": ast.NotEq, "lt": ast.Lt, "le": ast.LtE, "gt": ast.Gt, "ge": ast.GtE, "is_": ast.Is, "is_not": ast.IsNot}
+
+
+def _operator_name(fi: FuncInfo, f: ast.AST) -> str | None:
+    """the function of the operator module that callee expression f names (operator.eq, or eq imported from operator), else None"""
+    if isinstance(f, ast.Attribute) and isinstance(f.value, ast.Name) and f.value.id == "operator" and fi.module.imports.get("operator", ("operator", None))[0] == "operator":
+        return f.attr
+    if isinstance(f, ast.Name) and fi.module.imports.get(f.id, (None, None))[0] == "operator" and f.id not in fi.params() and not local_defs(fi, f.id):
+        return fi.module.imports[f.id][1]
+    return None
+
+
+def _plain_call(fi: FuncInfo, n: ast.AST) -> ast.AST:  # noqa: C901, PLR0911
+    """
+    The syntax a call of an operator-module function stands for (the node itself when it is none): eq(a, b) -> a == b,
+    contains(c, k) -> k in c, not_(a) -> not a, getitem(x, i) -> x[i], itemgetter(i)(x) -> x[i], attrgetter("a")(x) -> x.a,
+    methodcaller("m", ...)(x) -> x.m(...).
+    """
+    if not isinstance(n, ast.Call) or n.keywords and not isinstance(n.func, ast.Call) or any(isinstance(a, ast.Starred) for a in n.args):
+        return n
+    if isinstance(n.func, ast.Call) and len(n.args) == 1 and not n.keywords and not any(isinstance(a, ast.Starred) for a in n.func.args):
+        maker, made = _operator_name(fi, n.func.func), n.func
+        x = n.args[0]
+        if maker == "itemgetter" and len(made.args) == 1 and not made.keywords:
+            return ast.Subscript(value=x, slice=made.args[0], ctx=ast.Load())
+        if maker == "attrgetter" and len(made.args) == 1 and not made.keywords and isinstance(const_value(made.args[0]), str) and const_value(made.args[0]).isidentifier():
+            return ast.Attribute(value=x, attr=const_value(made.args[0]), ctx=ast.Load())
+        if maker == "methodcaller" and made.args and isinstance(const_value(made.args[0]), str) and const_value(made.args[0]).isidentifier() and all(k.arg is not None for k in made.keywords):
+            return ast.Call(func=ast.Attribute(value=x, attr=const_value(made.args[0]), ctx=ast.Load()), args=list(made.args[1:]), keywords=list(made.keywords))
+        return n
+    op = _operator_name(fi, n.func)
+    if op is None or n.keywords:
+        return n
+    if op in _CMP_OPS and len(n.args) == 2:
+        return ast.Compare(left=n.args[0], ops=[_CMP_OPS[op]()], comparators=[n.args[1]])
+    if op == "contains" and len(n.args) == 2:
+        return ast.Compare(left=n.args[1], ops=[ast.In()], comparators=[n.args[0]])
+    if op == "not_" and len(n.args) == 1:
+        return ast.UnaryOp(op=ast.Not(), operand=n.args[0])
+    if op == "truth" and len(n.args) == 1:
+        return n.args[0]
+    if op == "getitem" and len(n.args) == 2:
+        return ast.Subscript(value=n.args[0], slice=n.args[1], ctx=ast.Load())
+    return n
+
+
 def _comp_bound(n: ast.AST) -> set[str]:
     return {x.id for g in n.generators for x in ast.walk(g.target) if isinstance(x, ast.Name)}
 
@@ -95,6 +147,8 @@ def _stable_def(fi: FuncInfo, name: str, seen: frozenset = frozenset(), tuples: 
     if name in seen:
         return None
     d = single_def(fi, name)
+    if d is None:
+        d = _agreeing_defs(fi, name)
     if d is None:
         return None
     if d[1] is not None:
@@ -117,22 +171,51 @@ def _stable_def(fi: FuncInfo, name: str, seen: frozenset = frozenset(), tuples: 
             defs = local_defs(fi, n.id)
             if not defs:
                 continue                      # parameter that is never rebound / global / builtin
-            if n.id in fi.params() or len(defs) != 1:
+            if n.id in fi.params() or (len(defs) != 1 and _agreeing_defs(fi, n.id) is None):
                 return None                   # rebound parameter or multiply assigned local: value may differ at the use
     return val
+
+
+def _agreeing_defs(fi: FuncInfo, name: str):
+    """
+    (value, None) when the non-parameter local `name` is assigned in several places (one per branch), every time by a
+    plain assignment of the very same expression: whichever assignment reached the use, the local holds that expression.
+    """
+    if name in fi.params():
+        return None
+    ds = local_defs(fi, name)
+    if len(ds) < 2 or any(v is None or i is not None or not isinstance(st, (ast.Assign, ast.AnnAssign)) for st, v, i in ds):
+        return None
+    texts = {norm(strip_cast(v)) for st, v, i in ds}
+    if len(texts) != 1 or any(isinstance(n, ast.Name) and n.id == name for n in ast.walk(ds[0][1])):
+        return None
+    return ds[0][1], None
 
 
 class _Expander(ast.NodeTransformer):
     def __init__(self, fi: FuncInfo, getsub: tuple[str, ...], seen: frozenset = frozenset()) -> None:
         self.fi, self.getsub, self.seen = fi, getsub, seen
         self.bound: set[str] = set()
+        # "#field:<table>:<attribute>=<position>": entries of <table> are records whose <attribute> is also component <position>
+        self.fields = {}
+        for g in getsub:
+            if g.startswith("#field:"):
+                table, rest = g[len("#field:"):].rsplit(":", 1)
+                self.fields[(table, rest.split("=")[0])] = int(rest.split("=")[1])
+
+    def visit_Attribute(self, n: ast.Attribute):  # noqa: N802
+        n = self.generic_visit(n)
+        if self.fields and isinstance(n.ctx, ast.Load) and isinstance(n.value, ast.Subscript) and (norm(n.value.value), n.attr) in self.fields:
+            return ast.Subscript(value=n.value, slice=ast.Constant(value=self.fields[(norm(n.value.value), n.attr)]), ctx=ast.Load())
+        return n
 
     def visit_Name(self, n: ast.Name):  # noqa: N802
         if not isinstance(n.ctx, ast.Load) or n.id in self.bound:
             return n
         val = _stable_def(self.fi, n.id, self.seen, "#tuples" in self.getsub)
         if val is None:
-            return n
+            lit = _module_literal(self.fi, n.id)
+            return _copy(lit) if lit is not None else n
         return _Expander(self.fi, self.getsub, self.seen | {n.id}).visit(_copy(val))
 
     def _comp(self, n):
@@ -154,6 +237,9 @@ class _Expander(ast.NodeTransformer):
         s = strip_cast(n)
         if s is not n:
             return self.visit(s)
+        plain = _plain_call(self.fi, n)
+        if plain is not n:
+            return self.visit(plain)              # an operator-module spelling: read as the syntax it stands for
         n = self.generic_visit(n)
         # table.get(k) / table.get(k, None) read the same entry as table[k] wherever the entry exists
         if isinstance(n.func, ast.Attribute) and n.func.attr == "get" and not n.keywords and norm(n.func.value) in self.getsub \
@@ -178,7 +264,45 @@ def _c(text: str) -> str:
     return norm(ast.parse(text, mode="eval").body)
 
 
+_REPO = None           # the repository model the rules are running on (set by _Paths / the rules; read by the expression helpers)
+
+
+def _use(ctx: Ctx) -> None:
+    global _REPO  # noqa: PLW0603
+    _REPO = ctx.repo
+
+
+def _literal(e: ast.AST | None) -> bool:
+    """a constant, or a display / frozenset(...) / tuple(...) of constants"""
+    if e is None:
+        return False
+    if const_value(e) is not NOCONST:
+        return True
+    if isinstance(e, (ast.List, ast.Tuple, ast.Set)):
+        return all(const_value(x) is not NOCONST for x in e.elts)
+    return isinstance(e, ast.Call) and chain(e.func) in ("frozenset", "set", "tuple", "list") and len(e.args) == 1 and not e.keywords \
+        and isinstance(e.args[0], (ast.List, ast.Tuple, ast.Set)) and _literal(e.args[0])
+
+
+def _module_literal(fi: FuncInfo, name: str) -> ast.AST | None:
+    """the literal a module-level constant stands for (`_REQUIRED = ("name", "date", "schema")`), when `name` is not a local of fi"""
+    if _REPO is None or name in fi.params() or local_defs(fi, name):
+        return None
+    try:
+        r = _REPO.resolve_name(fi.module, name)
+    except Exception:  # noqa: BLE001
+        return None
+    if isinstance(r, tuple) and r[0] == "const" and _literal(strip_cast(r[2])):
+        # written once at module level (a rebound module global is not a constant)
+        stores_ = [n for n in ast.walk(r[1].tree) if isinstance(n, ast.Name) and n.id == name and isinstance(n.ctx, (ast.Store, ast.Del))]
+        glob = any(isinstance(n, ast.Global) and name in n.names for n in ast.walk(r[1].tree))
+        return strip_cast(r[2]) if len(stores_) == 1 and not glob else None
+    return None
+
+
 def _const_set(e: ast.AST):
+    if isinstance(e, ast.Call) and chain(e.func) in ("frozenset", "set", "tuple", "list") and len(e.args) == 1 and not e.keywords:
+        return _const_set(e.args[0])
     if isinstance(e, (ast.List, ast.Tuple, ast.Set)):
         vals = [const_value(x) for x in e.elts]
         if all(isinstance(v, (str, bytes, int)) for v in vals):
@@ -233,30 +357,276 @@ def _reaches(cfg, starts, site_ast: ast.AST) -> bool:
     return any(n in r for n in cfg.nodes_for(site_ast))
 
 
+# ------------------------------------------------------------------------------------ symbolic constants, result objects
+class _Sym:
+    """
+    An Enum member or a module-level `object()` sentinel: a value that is equal (and identical) only to itself - or, for
+    Enum members, to an alias carrying the same value.  `mixed` members (IntEnum, StrEnum, Flag ...) also compare and
+    test like their value.
+    """
+    __slots__ = ("mixed", "name", "owner", "value")
+
+    def __init__(self, owner, name: str, value=NOCONST, mixed: bool = False) -> None:
+        self.owner, self.name, self.value, self.mixed = owner, name, value, mixed
+
+    def __eq__(self, o) -> bool:
+        if isinstance(o, _Sym):
+            return o.owner == self.owner and (o.name == self.name or (self.value is not NOCONST and o.value is not NOCONST
+                                                                      and type(self.value) is type(o.value) and self.value == o.value))
+        return bool(self.mixed and self.value == o)
+
+    def __ne__(self, o) -> bool:
+        return not self.__eq__(o)
+
+    def __hash__(self) -> int:
+        return hash((self.owner, self.name))
+
+    def __bool__(self) -> bool:
+        return bool(self.value) if self.mixed else True
+
+    def __repr__(self) -> str:
+        return f"<{self.owner}.{self.name}>"
+
+
+_ENUM_BASES = {"Enum", "IntEnum", "StrEnum", "Flag", "IntFlag", "ReprEnum"}
+
+
+def _bases(cls) -> set[str]:
+    """last components of the base names of a class and of its repository ancestors (`enum.Enum` -> `Enum`)"""
+    return {b.split(".")[-1].split("[")[0] for b in cls.all_base_names()}
+
+
+def _enum_member(cls, name: str):
+    """the _Sym of member `name` of an Enum class of the repository, else NOCONST"""
+    bases = _bases(cls)
+    if not bases & _ENUM_BASES or name.startswith("_"):
+        return NOCONST
+    expr = cls.lookup_attr(name)
+    if expr is None or any(cls.lookup(m) is not None for m in ("__eq__", "__bool__", "__hash__", "_missing_", "__new__")):
+        return NOCONST
+    members = {k: v for c in cls.mro() for k, v in c.attrs.items() if not k.startswith("_")}
+    autos = [k for k, v in members.items() if isinstance(v, ast.Call) and chain(v.func) in ("auto", "enum.auto") and not v.args]
+    consts = {k: const_value(v) for k, v in members.items() if k not in autos}
+    if any(v is NOCONST for v in consts.values()) or (autos and len(autos) != len(members)):
+        return NOCONST                            # values that cannot be read (or auto() mixed with explicit ones): aliases cannot be excluded
+    mixed = bool(bases & {"IntEnum", "StrEnum", "Flag", "IntFlag", "ReprEnum", "int", "str", "bytes", "float"})
+    if autos:
+        return NOCONST if mixed else _Sym(cls.name, name)
+    return _Sym(cls.name, name, consts[name], mixed)
+
+
+def _global_const(fi: FuncInfo, e: ast.AST | None):
+    """
+    The value of an expression that does not depend on the run: a literal, a module-level constant, Class.CONSTANT, an
+    Enum member (as _Sym), a module-level `object()` sentinel (as _Sym).  NOCONST for everything else.
+    """
+    if e is None:
+        return NOCONST
+    e = strip_cast(e)
+    cv = const_value(e)
+    if cv is not NOCONST or _REPO is None:
+        return cv
+    try:
+        if isinstance(e, ast.Name):
+            if e.id in fi.params() or local_defs(fi, e.id):
+                return NOCONST
+            r = _REPO.resolve_name(fi.module, e.id)
+            if not (isinstance(r, tuple) and r[0] == "const"):
+                return NOCONST
+            once = sum(1 for n in ast.walk(r[1].tree) if isinstance(n, ast.Name) and n.id == e.id and isinstance(n.ctx, (ast.Store, ast.Del))) == 1 \
+                and not any(isinstance(n, ast.Global) and e.id in n.names for n in ast.walk(r[1].tree))
+            if not once:
+                return NOCONST
+            v = strip_cast(r[2])
+            if isinstance(v, ast.Call) and chain(v.func) == "object" and not v.args and not v.keywords:
+                return _Sym("object@" + r[1].relpath, e.id)
+            cv = _REPO.resolve_const(r[1], v)
+            return tuple(cv) if isinstance(cv, list) else cv
+        if isinstance(e, ast.Attribute):
+            c = _REPO.resolve_class_expr(fi.module, e.value)
+            if c is None:
+                return NOCONST
+            if _bases(c) & _ENUM_BASES:
+                return _enum_member(c, e.attr)
+            cv = _REPO.resolve_const(fi.module, e, None)
+            return tuple(cv) if isinstance(cv, list) else cv
+    except Exception:  # noqa: BLE001
+        return NOCONST
+    return NOCONST
+
+
+def _ctor_layout(c):
+    """
+    ([(attribute, default expression | None)], positional, [constructor parameter]) of a class whose instances are nothing
+    but their constructor arguments under attribute names: a NamedTuple / dataclass (annotated fields), or a class whose
+    __init__ only stores its parameters (`self.a = a`) and whose other methods never store those attributes.  Else None.
+    """
+    memo = c.node.__dict__
+    if "_c17_layout" in memo:
+        return memo["_c17_layout"]
+    memo["_c17_layout"] = None
+    own_bases = [b.split(".")[-1].split("[")[0] for b in c.base_names]
+    nt = "NamedTuple" in own_bases
+    dc = any(chain(d.func if isinstance(d, ast.Call) else d) in ("dataclass", "dataclasses.dataclass") for d in c.node.decorator_list)
+    if c.bases or c.lookup("__new__") is not None or c.lookup("__getattr__") is not None or c.lookup("__getattribute__") is not None or c.lookup("__setattr__") is not None:
+        return None
+    out = None
+    if nt or dc:
+        if c.lookup("__init__") is None and c.lookup("__post_init__") is None:
+            flds = [(x.target.id, x.value) for x in c.node.body if isinstance(x, ast.AnnAssign) and isinstance(x.target, ast.Name) and "ClassVar" not in norm(x.annotation)]
+            if not (dc and any(isinstance(d, ast.Call) and chain(d.func) in ("field", "dataclasses.field") for _n, d in flds)):
+                out = (flds, nt, [n for n, _d in flds])
+    elif "__init__" in c.methods and not [b for b in own_bases if b not in ("object", "Generic", "Protocol")]:
+        init = c.methods["__init__"]
+        a = init.node.args
+        body = [x for x in init.node.body if not (isinstance(x, ast.Expr) and isinstance(x.value, ast.Constant))]
+        params = [x.arg for x in [*a.posonlyargs, *a.args]][1:]
+        defaults = dict(zip(reversed([x.arg for x in [*a.posonlyargs, *a.args]]), reversed(a.defaults)))
+        stored: dict[str, str] = {}
+        ok = not (a.vararg or a.kwarg or a.kwonlyargs) and bool(params)
+        for st in body:
+            tg = st.targets[0] if isinstance(st, ast.Assign) and len(st.targets) == 1 else st.target if isinstance(st, ast.AnnAssign) and st.value is not None else None
+            v = strip_cast(st.value) if tg is not None else None
+            if not (isinstance(tg, ast.Attribute) and isinstance(tg.value, ast.Name) and tg.value.id == "self" and isinstance(v, ast.Name) and v.id in params
+                    and v.id not in stored and tg.attr not in stored.values()):
+                ok = False
+                break
+            stored[v.id] = tg.attr
+        if ok and len(stored) == len(params):
+            attrs = set(stored.values())
+            rebound = any(isinstance(n, ast.Attribute) and n.attr in attrs and isinstance(n.ctx, (ast.Store, ast.Del))
+                          for k, meth in c.methods.items() if k != "__init__" for n in ast.walk(meth.node))
+            if not rebound and not attrs & set(c.methods) and not attrs & set(c.attrs):
+                out = ([(stored[q], defaults.get(q)) for q in params], False, params)
+    memo["_c17_layout"] = out
+    return out
+
+
+def _record_fields(m, ctor: ast.AST):
+    """
+    ([(field name, default expression | None)], positional, [constructor parameter]) of the result-object class a
+    constructor expression names: a NamedTuple / dataclass / plain parameter-holder class defined in the repository, or a
+    collections.namedtuple; positional says that the object can also be indexed.  None for anything else.
+    """
+    if _REPO is None:
+        return None
+    try:
+        c = _REPO.resolve_class_expr(m, ctor)
+        if c is not None:
+            return _ctor_layout(c)
+        if isinstance(ctor, ast.Name):
+            r = _REPO.resolve_name(m, ctor.id)
+            if isinstance(r, tuple) and r[0] == "const":
+                v = strip_cast(r[2])
+                if isinstance(v, ast.Call) and chain(v.func) in ("namedtuple", "collections.namedtuple") and len(v.args) == 2 and not v.keywords:
+                    f = v.args[1]
+                    names = const_value(f) if not isinstance(f, ast.List) else [const_value(x) for x in f.elts]
+                    if isinstance(names, str):
+                        names = names.replace(",", " ").split()
+                    if isinstance(names, (list, tuple)) and names and all(isinstance(x, str) for x in names):
+                        return [(x, None) for x in names], True, list(names)
+    except Exception:  # noqa: BLE001
+        return None
+    return None
+
+
+def _field_expr(fi: FuncInfo, e: ast.AST | None, step: tuple) -> ast.AST | None:  # noqa: C901, PLR0911, PLR0912
+    """
+    The expression whose value is component `step` - ("attr", name) or ("idx", i) - of the value of e, when e shows its
+    construction: a tuple / list display, a constructor call of a result-object class (NamedTuple / dataclass /
+    namedtuple), an Enum member (.value / .name).  None when e does not show it.
+    """
+    if e is None:
+        return None
+    e = strip_cast(e)
+    kind, key = step
+    if isinstance(e, (ast.Tuple, ast.List)) and kind == "idx":
+        if any(isinstance(x, ast.Starred) for x in e.elts) or not -len(e.elts) <= key < len(e.elts):
+            return None
+        return e.elts[key]
+    if isinstance(e, ast.Attribute) and kind == "attr" and key in ("value", "name"):
+        g = _global_const(fi, e)
+        if isinstance(g, _Sym) and not str(g.owner).startswith("object@"):
+            if key == "name":
+                return ast.Constant(value=g.name)
+            return ast.Constant(value=g.value) if g.value is not NOCONST else None
+        return None
+    if isinstance(e, ast.Call) and not any(isinstance(x, ast.Starred) for x in e.args) and all(k.arg is not None for k in e.keywords):
+        rf = _record_fields(fi.module, e.func)
+        if rf is None:
+            return None
+        flds, positional, params = rf
+        names = [n for n, _d in flds]
+        if kind == "idx":
+            if not positional or not -len(names) <= key < len(names):
+                return None
+            key = names[key]
+        if key not in names or len(e.args) > len(names) or any(k.arg not in params for k in e.keywords):
+            return None
+        i = names.index(key)
+        if i < len(e.args):
+            return e.args[i]
+        for k in e.keywords:
+            if k.arg == params[i]:
+                return k.value
+        d = flds[i][1]
+        return d if d is not None and const_value(d) is not NOCONST else None
+    return None
+
+
+def _with_path(e: ast.AST, path) -> ast.AST:
+    """the expression e.<path>"""
+    for kind, key in path:
+        e = ast.Attribute(value=e, attr=key, ctx=ast.Load()) if kind == "attr" else ast.Subscript(value=e, slice=ast.Constant(value=key), ctx=ast.Load())
+    return e
+
+
+def _step_of(e: ast.AST):
+    """the component an attribute access / constant subscript selects, else None"""
+    if isinstance(e, ast.Attribute):
+        return ("attr", e.attr)
+    if isinstance(e, ast.Subscript):
+        i = const_value(e.slice)
+        if isinstance(i, int) and not isinstance(i, bool):
+            return ("idx", i)
+    return None
+
+
 # ------------------------------------------------------------------------------------ feasible paths, followed calls
 def _pair_of(f: Fact):
     """(atom, outcome) such that fact_of(atom, outcome) is f."""
     return f.atom, f.pos == fact_of(f.atom, True).pos
 
 
-def _subject(atom: ast.AST, pol: bool):
+def _subject(atom: ast.AST, pol: bool, gc=const_value):
     """
     (expression under test, sat, truthiness, key): the edge `atom is pol` says that the value v of the expression
     satisfies sat(v).  truthiness is the truth value of the expression itself when the atom is a plain truthiness test,
-    else None.  key identifies the test (for caches).
+    else None.  key identifies the test (for caches).  gc(expr) reads the constants the test compares with (literals;
+    with _global_const also Enum members, sentinels and module constants).
     """
     if isinstance(atom, ast.Compare) and len(atom.ops) == 1 and isinstance(atom.ops[0], (ast.Is, ast.IsNot, ast.Eq, ast.NotEq)):
         l, op, r = atom.left, atom.ops[0], atom.comparators[0]
-        if const_value(l) is not NOCONST and const_value(r) is NOCONST:
+        if gc(l) is not NOCONST and gc(r) is NOCONST:
             l, r = r, l
-        c = const_value(r)
-        if c is not NOCONST and const_value(l) is NOCONST:
+        c = gc(r)
+        if c is not NOCONST and gc(l) is NOCONST:
             want = pol != isinstance(op, (ast.IsNot, ast.NotEq))
             if isinstance(op, (ast.Is, ast.IsNot)):
+                if isinstance(c, _Sym):
+                    return l, (lambda v, c=c, want=want: (isinstance(v, _Sym) and v == c) == want), None, ("is", repr(c), want)
                 if not (c is None or isinstance(c, bool)):
                     return l, (lambda v: True), None, ("?",)          # identity with other constants is not decided here
                 return l, (lambda v, c=c, want=want: (v is c) == want), None, ("is", repr(c), want)
             return l, (lambda v, c=c, want=want: bool(v == c) == want), None, ("eq", repr(c), want)
+    if isinstance(atom, ast.Compare) and len(atom.ops) == 1 and isinstance(atom.ops[0], (ast.In, ast.NotIn)) and gc is not const_value:
+        l, op, r = atom.left, atom.ops[0], strip_cast(atom.comparators[0])
+        if isinstance(r, ast.Call) and chain(r.func) in ("frozenset", "set", "tuple", "list") and len(r.args) == 1 and not r.keywords:
+            r = strip_cast(r.args[0])
+        cs = [gc(x) for x in r.elts] if isinstance(r, (ast.Tuple, ast.List, ast.Set)) else gc(r)
+        if isinstance(cs, (list, tuple)) and all(x is not NOCONST for x in cs) and gc(l) is NOCONST:
+            want = pol != isinstance(op, ast.NotIn)
+            return l, (lambda v, cs=tuple(cs), want=want: any(bool(v == x) for x in cs) == want), None, ("in", repr(cs), want)
     return atom, (lambda v, pol=pol: bool(v) == pol), pol, ("truthy", pol)
 
 
@@ -272,8 +642,9 @@ class _Frame:
     (so that it can never be confused with a local of the caller).  ok is False when the binding cannot be decided.
     """
 
-    def __init__(self, caller: FuncInfo, call: ast.Call, hf: FuncInfo, tag: str, getsub: tuple[str, ...] = ()) -> None:
+    def __init__(self, caller: FuncInfo, call: ast.Call, hf: FuncInfo, tag: str, getsub: tuple[str, ...] = (), self_expr: ast.AST | None = None) -> None:
         self.caller, self.call, self.hf, self.tag, self.getsub = caller, call, hf, tag, getsub
+        self.self_expr = self_expr                # the constructor call of the parameter-holder object the method is called on
         self.bind: dict[str, ast.AST] = {}
         self.star: str | None = None              # *args parameter bound to the remaining positional arguments
         self.kw: dict[str, ast.AST] = {}
@@ -297,9 +668,9 @@ class _Frame:
             return False
         implicit = self.hf.cls is not None and "staticmethod" not in self.hf.decorator_names()
         if implicit:
-            if not names or not isinstance(call.func, ast.Attribute):
+            if not names or (self.self_expr is None and not isinstance(call.func, ast.Attribute)):
                 return False
-            self.bind[names[0]] = call.func.value
+            self.bind[names[0]] = self.self_expr if self.self_expr is not None else call.func.value
             names = names[1:]
         fixed = call.args[:len(names)]
         if any(isinstance(x, ast.Starred) for x in fixed):
@@ -337,10 +708,10 @@ class _Frame:
                 self.bind[n] = defaults[n]
         return True
 
-    def lift(self, e: ast.AST | None) -> ast.AST | None:
+    def lift(self, e: ast.AST | None, getsub: tuple | None = None) -> ast.AST | None:
         if e is None:
             return None
-        e = _expand(self.hf, e, self.getsub)
+        e = _expand(self.hf, e, self.getsub if getsub is None else getsub)
         fr = self
 
         class Sub(ast.NodeTransformer):
@@ -349,6 +720,15 @@ class _Frame:
                     return ast.Name(id=fr.tag + n.id, ctx=n.ctx)
                 if n.id in fr.bind and isinstance(n.ctx, ast.Load):
                     return clone(fr.bind[n.id])
+                return n
+
+            def visit_Attribute(self, n):  # noqa: N802
+                n = self.generic_visit(n)
+                # <parameter holder>(a, b).x is the constructor argument stored as x
+                if fr.self_expr is not None and isinstance(n.ctx, ast.Load) and isinstance(n.value, ast.Call):
+                    fe = _field_expr(fr.caller, n.value, ("attr", n.attr))
+                    if fe is not None:
+                        return clone(fe)
                 return n
 
             def visit_Subscript(self, n):  # noqa: N802
@@ -452,7 +832,15 @@ def _follow(ctx: Ctx, fi: FuncInfo, call: ast.AST, tag: str, getsub: tuple[str, 
     if not isinstance(call, ast.Call):
         return None
     f = call.func
+    _use(ctx)
     own = isinstance(f, ast.Attribute) and isinstance(f.value, ast.Name) and f.value.id in ("self", "cls")
+    held = _holder_method(fi, f) if not own else None
+    if held is not None:
+        meth, ctor = held
+        if meth.is_async or meth.node is fi.node or (_is_generator(meth.node) and not generators):
+            return None
+        fr = _Frame(fi, call, _unrolled(ctx, meth), tag, getsub, self_expr=ctor)
+        return fr if fr.ok else None
     if not own and not isinstance(f, ast.Name):
         return None
     try:
@@ -467,6 +855,88 @@ def _follow(ctx: Ctx, fi: FuncInfo, call: ast.AST, tag: str, getsub: tuple[str, 
         return None
     fr = _Frame(fi, call, _unrolled(ctx, tg[0]), tag, getsub)
     return fr if fr.ok else None
+
+
+def _unwrapped_iter(e: ast.AST | None) -> ast.AST | None:
+    """the collection an iterable expression walks over: list(x) / tuple(x) / iter(x) / sorted(x) / reversed(x) / enumerate(x) -> x"""
+    e = strip_cast(e) if e is not None else None
+    while isinstance(e, ast.Call) and chain(e.func) in ("list", "tuple", "iter", "sorted", "reversed", "enumerate", "set", "frozenset") and len(e.args) == 1 and not e.keywords:
+        e = strip_cast(e.args[0])
+    return e
+
+
+def _only_read(fi: FuncInfo, name: str) -> bool:
+    """the local is never changed in place nor handed to other code: it is only iterated, measured, tested or returned"""
+    for n in ast.walk(fi.node):
+        if not (isinstance(n, ast.Name) and n.id == name and isinstance(n.ctx, ast.Load)):
+            continue
+        par = parent(n)
+        if isinstance(par, (ast.For, ast.AsyncFor)) and par.iter is n:
+            continue
+        if isinstance(par, ast.comprehension) and par.iter is n:
+            continue
+        if isinstance(par, ast.Call) and n in par.args and chain(par.func) in ("len", "bool", "list", "tuple", "iter", "sorted", "reversed", "enumerate", "set", "frozenset", "any", "all"):
+            continue
+        if isinstance(par, (ast.Compare, ast.BoolOp, ast.If, ast.While, ast.Return)) or (isinstance(par, ast.UnaryOp) and isinstance(par.op, ast.Not)) \
+                or (isinstance(par, ast.IfExp) and par.test is n):
+            continue
+        return False
+    return True
+
+
+def _empty_display(e: ast.AST | None) -> bool:
+    if isinstance(e, (ast.List, ast.Tuple, ast.Set)):
+        return not e.elts
+    if isinstance(e, ast.Dict):
+        return not e.keys
+    if isinstance(e, ast.Constant):
+        return isinstance(e.value, (str, bytes)) and not e.value
+    return isinstance(e, ast.Call) and chain(e.func) in ("list", "tuple", "set", "frozenset", "dict") and not e.args and not e.keywords
+
+
+def _holder_method(fi: FuncInfo, f: ast.AST):
+    """
+    (method, constructor call) when the callee expression f is `<holder>` (its __call__) or `<holder>.method`, <holder>
+    being a constructor call - possibly kept in a single-assignment local - of a private parameter-holder class (see
+    _ctor_layout): the method runs with self.<attribute> standing for the constructor arguments.
+    """
+    if _REPO is None:
+        return None
+    try:
+        return _holder_method_of(fi, f)
+    except AnalysisError:
+        raise
+    except Exception:  # noqa: BLE001
+        return None
+
+
+def _holder_method_of(fi: FuncInfo, f: ast.AST):
+    name = "__call__"
+    obj = f
+    if isinstance(f, ast.Attribute):
+        name, obj = f.attr, f.value
+    for cand, nm in ((f, "__call__"), (obj, name)):
+        c0 = resolve(fi, cand) if isinstance(cand, (ast.Name, ast.Call)) else None
+        if not isinstance(c0, ast.Call) or any(isinstance(a, ast.Starred) for a in c0.args) or any(k.arg is None for k in c0.keywords):
+            continue
+        try:
+            cls = _REPO.resolve_class_expr(fi.module, c0.func)
+        except Exception:  # noqa: BLE001
+            cls = None
+        if cls is None or not cls.name.startswith("_") or _ctor_layout(cls) is None or nm in ("__init__", "__new__"):
+            continue
+        meth = cls.methods.get(nm)
+        if meth is not None and "staticmethod" not in meth.decorator_names() and "classmethod" not in meth.decorator_names():
+            return meth, c0
+    return None
+
+
+def _private_helper(fi: FuncInfo, fr: "_Frame") -> bool:
+    """the followed function is part of fi's own implementation: a private method of fi's class, or a method of a private parameter-holder object"""
+    h = fr.hf
+    if fr.self_expr is not None:
+        return True
+    return h.cls is not None and h.cls is fi.cls and h.name.startswith("_") and not h.name.startswith("__")
 
 
 class _FinalAtom:
@@ -534,6 +1004,9 @@ class _Paths:
 
     def __init__(self, ctx: Ctx, fi: FuncInfo, site, *, final=None, depth: int = 0, getsub: tuple[str, ...] = (), avoid=()) -> None:  # noqa: C901
         self.ctx, self.fi, self.cfg, self.depth, self.getsub = ctx, fi, ctx.cfg(fi), depth, getsub
+        _use(ctx)
+        self.gc = lambda e: _global_const(fi, e)
+        self._const_cache: dict = {}
         self.avoid = set(avoid)
         if isinstance(site, Node):
             self.sites, self.context = [site], []
@@ -544,17 +1017,36 @@ class _Paths:
         self.final = _FinalAtom(*final) if final is not None else None
         self._pairs_cache: dict = {}
         self._outcome_cache: dict = {}
+        self._subs_cache: dict = {}               # pairs key -> keys of the followed calls that contributed to it
+        self._outcome_parts: dict = {}            # outcome key -> (frame, [one _Paths per return of the helper that produces the outcome])
+        self._collectors: list = []
         self._norm: dict = {}
         self._keep: list = []
         # locals worth following: tested by name somewhere, assigned more than once, every assignment located on the CFG
         tested: set[str] = set()
+        def root_name(s: ast.AST):
+            s = strip_cast(s)
+            while isinstance(s, (ast.Attribute, ast.Subscript)) and _step_of(s) is not None:
+                s = strip_cast(s.value)               # verdict.ok / verdict[0] / verdict.value test the local `verdict`
+            return s.id if isinstance(s, ast.Name) else None
         for n in self.cfg.nodes:
             if n.kind == "cond":
-                s = strip_cast(_subject(n.ast, True)[0])
-                if isinstance(s, ast.Name):
-                    tested.add(s.id)
-        if final is not None and isinstance(strip_cast(final[0]), ast.Name):
-            tested.add(strip_cast(final[0]).id)
+                s = _subject(n.ast, True, self.gc)[0]
+                if isinstance(strip_cast(s), ast.Call) and chain(strip_cast(s).func) == "isinstance" and len(strip_cast(s).args) == 2:
+                    s = strip_cast(s).args[0]
+                if root_name(s) is not None:
+                    tested.add(root_name(s))
+        if final is not None and final[0] is not None and root_name(final[0]) is not None:
+            tested.add(root_name(final[0]))
+        # a loop over a local that holds an empty display on some paths is not entered on those paths
+        self.loop_iter: dict = {}
+        for n in self.cfg.nodes:
+            if n.kind == "loop" and isinstance(n.ast, (ast.For, ast.AsyncFor)):
+                it = _unwrapped_iter(n.ast.iter)
+                if isinstance(it, ast.Name) and _only_read(fi, it.id) and not any(isinstance(x, ast.Name) and x.id == it.id and isinstance(x.ctx, (ast.Store, ast.Del))
+                                                                                  for st0 in n.ast.body for x in ast.walk(st0)):
+                    self.loop_iter[n] = it
+                    tested.add(it.id)
         self.tracked: list[str] = []
         self.defs: list[list] = []                # per tracked local: [(value | None, tuple index | None)]
         self.def_at: dict = {}                    # cfg node -> [(local index, definition index, label or None)]
@@ -602,56 +1094,170 @@ class _Paths:
                 return d[0], d[1]
         return None, None
 
-    def _const_of(self, s: ast.AST, st):
-        s, seen = strip_cast(s), 0
-        while isinstance(s, ast.Name) and seen < 4:
+    def _shown(self, s: ast.AST | None, st, depth: int = 0) -> ast.AST | None:
+        """
+        An expression with the same value as s in this state whose construction is visible: locals are replaced by the
+        definition that reached them, components (x.ok, x[0], member.value) of visible constructions by the component.
+        """
+        if s is None or depth > 8:
+            return s
+        s = strip_cast(s)
+        if self.gc(s) is not NOCONST:
+            return s
+        if isinstance(s, ast.Name):
             v, idx = self._value(s.id, st)
-            if v is None or idx is not None:
+            if v is None:
+                return s
+            if idx is None:
+                return self._shown(v, st, depth + 1)
+            e = _field_expr(self.fi, self._shown(v, st, depth + 1), ("idx", idx))
+            return self._shown(e, st, depth + 1) if e is not None else s
+        step = _step_of(s) if isinstance(s, (ast.Attribute, ast.Subscript)) else None
+        if step is not None:
+            e = _field_expr(self.fi, self._shown(s.value, st, depth + 1), step)
+            return self._shown(e, st, depth + 1) if e is not None else s
+        return s
+
+    def _const_of(self, s: ast.AST, st):
+        ck = (id(s), st)
+        if ck in self._const_cache:
+            return self._const_cache[ck][0]
+        e = self._shown(s, st)
+        cv = self.gc(e) if e is not None else NOCONST
+        if cv is NOCONST and isinstance(e, ast.Call) and chain(e.func) == "isinstance" and len(e.args) == 2 and not e.keywords:
+            cv = self._isinstance(self._shown(e.args[0], st), e.args[1])
+        self._const_cache[ck] = (cv, s)
+        return cv
+
+    def _isinstance(self, obj: ast.AST | None, cls_expr: ast.AST):
+        """isinstance(<visible construction>, <class of the repository>) - True / False / NOCONST"""
+        try:
+            want = self.ctx.repo.resolve_class_expr(self.fi.module, cls_expr)
+            if want is None or obj is None:
                 return NOCONST
-            s, seen = strip_cast(v), seen + 1
-        return const_value(s)
+            g = self.gc(obj)
+            if g is not NOCONST:
+                if isinstance(g, _Sym):
+                    return NOCONST if str(g.owner).startswith("object@") else g.owner == want.name
+                return False                          # a literal is not an instance of a class defined in the repository
+            if isinstance(obj, ast.Call) and _record_fields(self.fi.module, obj.func) is not None:
+                have = self.ctx.repo.resolve_class_expr(self.fi.module, obj.func)
+                return NOCONST if have is None else have is want
+        except Exception:  # noqa: BLE001
+            return NOCONST
+        return NOCONST
 
     def _contradicted(self, atom: ast.AST, pol: bool, st) -> bool:
-        s, sat, _, _ = _subject(atom, pol)
+        s, sat, _, _ = _subject(atom, pol, self.gc)
         cv = self._const_of(s, st)
-        return cv is not NOCONST and not sat(cv)
+        try:
+            return cv is not NOCONST and not sat(cv)
+        except Exception:  # noqa: BLE001
+            return False
+
+    def _producer(self, s: ast.AST, st) -> tuple:
+        """
+        (expression, path, moved): the value under test is component `path` of the value of `expression`, which is a
+        call when the value comes out of one; moved says that the expression is not s itself (a definition was followed
+        or a component of a visible construction taken).
+        """
+        path: list = []
+        first = s = strip_cast(s)
+        for _ in range(12):
+            s = strip_cast(s)
+            if path:
+                e = _field_expr(self.fi, s, path[0])
+                if e is not None:
+                    s, path = e, path[1:]
+                    continue
+            if isinstance(s, ast.Name):
+                v, idx = self._value(s.id, st)
+                if v is None:
+                    break
+                s = v
+                if idx is not None:
+                    path = [("idx", idx), *path]
+                continue
+            step = _step_of(s) if isinstance(s, (ast.Attribute, ast.Subscript)) and self.gc(s) is NOCONST else None
+            if step is not None:
+                # only where the base is a local, a call or a visible construction (attributes of other objects are left alone)
+                base = strip_cast(s.value)
+                inner = base
+                while isinstance(inner, (ast.Attribute, ast.Subscript)) and _step_of(inner) is not None:
+                    inner = strip_cast(inner.value)
+                if (isinstance(inner, ast.Name) and self._value(inner.id, st)[0] is not None) or isinstance(inner, (ast.Call, ast.Tuple, ast.List)):
+                    s, path = base, [step, *path]
+                    continue
+            break
+        return s, path, s is not first
 
     def pairs(self, atom: ast.AST, pol: bool, st) -> list:
         """Everything the edge `atom is pol` says in this state, as (atom, outcome) pairs in fi's name space."""
         ck = (id(atom), pol, st)
         if ck in self._pairs_cache:
+            self._collect(self._subs_cache.get(ck, ()))
             return self._pairs_cache[ck]
         out, work, budget = [], [(atom, pol)], 24
-        while work and budget:
-            a, p = work.pop()
-            budget -= 1
-            out.append((a, p))
-            s, sat, truth, tk = _subject(a, p)
-            s = strip_cast(s)
-            idx, hops = None, 0
-            while isinstance(s, ast.Name) and hops < 4:
-                v, idx = self._value(s.id, st)
-                if v is None:
-                    s = None
-                    break
-                s, hops = strip_cast(v), hops + 1
-                if idx is not None:
-                    break
-            if s is None:
-                continue
-            if hops and truth is not None and idx is None:
-                work.extend(_pair_of(f) for f in _atoms_with_polarity(s, truth))
-                continue
-            if isinstance(s, ast.Call):
-                out.extend(self.outcome(s, sat, truth, idx, tk))
+        self._collectors.append([])
+        try:
+            while work and budget:
+                a, p = work.pop()
+                budget -= 1
+                plain = _plain_call(self.fi, strip_cast(a))
+                if plain is not strip_cast(a):
+                    # operator.eq(a, b) / not_(x) / contains(c, k) ...: the test it stands for
+                    work.extend(_pair_of(f) for f in (_atoms_with_polarity(plain, p) or [fact_of(plain, p)]))
+                    continue
+                out.append((a, p))
+                s0, sat, truth, tk = _subject(a, p, self.gc)
+                s, path, moved = self._producer(s0, st)
+                if moved and truth is not None and not path:
+                    work.extend(_pair_of(f) for f in (_atoms_with_polarity(s, truth) or [fact_of(s, truth)]))
+                    continue
+                told = self._with_reaching_defs(a, st)
+                if told is not None:
+                    out.append((told, p))         # the same test, told about the definitions that reached the locals it reads
+                if isinstance(s, ast.Call):
+                    out.extend(self.outcome(s, sat, truth, tuple(path), tk))
+        finally:
+            subs = self._collectors.pop()
         self._pairs_cache[ck] = out
+        self._subs_cache[ck] = subs
+        self._collect(subs)
         return out
+
+    def _with_reaching_defs(self, a: ast.AST, st) -> ast.AST | None:
+        """a with every followed (multiply assigned) local replaced by the non-constant expression last assigned to it in this state; None if there is none"""
+        if not self.tracked:
+            return None
+        sub: dict = {}
+        for n in ast.walk(a):
+            if isinstance(n, ast.Name) and isinstance(n.ctx, ast.Load) and n.id in self.tracked and n.id not in sub:
+                k = self.tracked.index(n.id)
+                v, idx = self.defs[k][st[k]] if st[k] >= 0 else (None, None)
+                if v is not None and idx is None and self.gc(v) is NOCONST and not any(isinstance(x, ast.Name) and x.id == n.id for x in ast.walk(v)):
+                    sub[n.id] = v
+        if not sub:
+            return None
+        bound = {x for n in ast.walk(a) if isinstance(n, (ast.ListComp, ast.SetComp, ast.DictComp, ast.GeneratorExp)) for x in _comp_bound(n)}
+        if bound & set(sub):
+            return None
+
+        class Sub(ast.NodeTransformer):
+            def visit_Name(self, n):  # noqa: N802
+                return clone(sub[n.id]) if isinstance(n.ctx, ast.Load) and n.id in sub else n
+        return Sub().visit(clone(a))
+
+    def _collect(self, cks) -> None:
+        if self._collectors:
+            self._collectors[-1].extend(k for k in cks if k not in self._collectors[-1])
 
     def outcome(self, call: ast.Call, sat, truth, idx, tk) -> list:  # noqa: C901
         """What holds in fi whenever the followed call returns a value v (component idx of it) with sat(v)."""
         if self.depth >= self.MAXDEPTH:
             return []
         ck = (id(call), idx, tk)
+        self._collect([ck])
         if ck in self._outcome_cache:
             return self._outcome_cache[ck]
         self._outcome_cache[ck] = []
@@ -659,27 +1265,8 @@ class _Paths:
         if fr is None:
             return []
         hf = fr.hf
-        hcfg = self.ctx.cfg(hf)
-        rets = [r for r in walk_no_nested(hf.node) if isinstance(r, ast.Return)]
-        retnodes = [n for r in rets for n in hcfg.nodes_for(r)]
-        falls = [u for u, lab in hcfg.exit.pred if not isinstance(u.ast, ast.Return) and hcfg.reachable(u)]
-        per = []
-        kw = {"depth": self.depth + 1, "getsub": self.getsub}
-        for r in rets:
-            v = resolve(hf, r.value) if r.value is not None else ast.Constant(value=None)
-            if idx is not None:
-                v = v.elts[idx] if isinstance(v, ast.Tuple) and idx < len(v.elts) and not any(isinstance(x, ast.Starred) for x in v.elts) else None
-            if v is not None and const_value(v) is not NOCONST:
-                if not sat(const_value(v)):
-                    continue
-                p = _Paths(self.ctx, hf, r, **kw)
-            else:
-                p = _Paths(self.ctx, hf, r, final=(v, sat, truth, tk) if v is not None else None, **kw)
-            if p.sites:
-                per.append((p, p.all_pairs()))
-        if falls and sat(None) and idx is None:
-            p = _Paths(self.ctx, hf, hcfg.exit, avoid=retnodes, **kw)
-            per.append((p, p.all_pairs()))
+        path = tuple(idx) if isinstance(idx, (tuple, list)) else () if idx is None else (("idx", idx),)
+        per = [(p, p.all_pairs()) for p in _approving_exits(self.ctx, hf, sat, truth, tk, depth=self.depth + 1, getsub=self.getsub, path=path, feasible_only=True)]
         res = []
         if per:
             lifted = []
@@ -699,6 +1286,7 @@ class _Paths:
                     return vals[0] if len(vals) == 1 else ast.BoolOp(op=ast.And(), values=vals)
                 res.append((ast.BoolOp(op=ast.Or(), values=[conj(d) for d in lifted]), True))
         self._outcome_cache[ck] = res
+        self._outcome_parts[ck] = (fr, [p for p, _ps in per])
         return res
 
     # ---- search
@@ -734,8 +1322,11 @@ class _Paths:
                         visit(u, lab, st)
                     if accept(u, lab, st):
                         continue
-                elif lab in (True, False) and u.kind == "loop" and accept(u, lab, st):
-                    continue
+                elif lab in (True, False) and u.kind == "loop":
+                    if lab is True and u in self.loop_iter and _empty_display(_unwrapped_iter(self._shown(self.loop_iter[u], st))):
+                        continue                  # nothing to iterate over in this state
+                    if accept(u, lab, st):
+                        continue
                 st2 = st
                 if lab != "exc" and u in self.def_at:
                     l2 = list(st)
@@ -748,8 +1339,11 @@ class _Paths:
 
     def _final_contradicted(self, st) -> bool:
         cv = self._const_of(self.final.expr, st)
-        if cv is not NOCONST and not self.final.sat(cv):
-            return True
+        try:
+            if cv is not NOCONST and not self.final.sat(cv):
+                return True
+        except Exception:  # noqa: BLE001
+            pass
         if self.final.truth is not None:
             # `return ok and <more>` counts as truthy only where every conjunct can be
             return any(self._contradicted(*_pair_of(f), st) for f in _atoms_with_polarity(self.final.expr, self.final.truth))
@@ -770,15 +1364,10 @@ class _Paths:
                 return out + self._final_pairs(expr.body if a else expr.orelse, sat, truth, tk, st, depth + 1)
             return []
         if truth is None:
-            s, idx, hops = expr, None, 0
-            while isinstance(s, ast.Name) and hops < 4 and idx is None:
-                v, idx = self._value(s.id, st)
-                if v is None:
-                    break
-                s, hops = strip_cast(v), hops + 1
-            if isinstance(s, ast.IfExp) and idx is None and hops:
+            s, path, moved = self._producer(expr, st)
+            if isinstance(s, ast.IfExp) and not path and moved:
                 return self._final_pairs(s, sat, truth, tk, st, depth + 1)
-            return self.outcome(s, sat, None, idx, tk) if isinstance(s, ast.Call) else []
+            return self.outcome(s, sat, None, tuple(path), tk) if isinstance(s, ast.Call) else []
         out = []
         for f in _atoms_with_polarity(expr, truth):
             out.extend(self.pairs(*_pair_of(f), st))
@@ -788,11 +1377,21 @@ class _Paths:
         if isinstance(u, _FinalAtom):
             ck = ("final", st)
             if ck not in self._pairs_cache:
-                self._pairs_cache[ck] = self._final_pairs(u.expr, u.sat, u.truth, u.key, st)
+                self._collectors.append([])
+                try:
+                    self._pairs_cache[ck] = self._final_pairs(u.expr, u.sat, u.truth, u.key, st)
+                finally:
+                    self._subs_cache[ck] = self._collectors.pop()
             return self._pairs_cache[ck]
         if u.kind != "cond":
             return []
         return self.pairs(u.ast, lab, st)
+
+    def edge_parts(self, u, lab, st) -> list:
+        """the followed calls whose outcome the edge tests: [(frame, [_Paths per producing return of the helper])]"""
+        self.edge_pairs(u, lab, st)
+        ck = ("final", st) if isinstance(u, _FinalAtom) else (id(u.ast), lab, st)
+        return [self._outcome_parts[k] for k in self._subs_cache.get(ck, ()) if k in self._outcome_parts]
 
     def holds(self, pred) -> bool:
         """pred(Fact) is true of something that every feasible path to the site establishes."""
@@ -815,7 +1414,27 @@ class _Paths:
             if k not in memo:
                 memo[k] = sat(fact_of(a, p))
             return memo[k]
-        return not self._search(lambda u, lab, st: any(ok(a, p) for a, p in self.edge_pairs(u, lab, st)))
+
+        def inside(part) -> bool:
+            """every way the helper produces the tested outcome establishes it (told in this function's terms)"""
+            fr, subs = part
+            k = ("part", id(fr))
+            if k not in memo:
+                def lifted(f: Fact, fr=fr) -> bool:
+                    a, q = _pair_of(f)
+                    return _safe(pred, fact_of(fr.lift(a), q))
+                memo[k] = bool(subs) and all(sp.holds(lifted) for sp in subs)
+            return memo[k]
+
+        def settled(u, lab, st) -> bool:
+            if any(ok(a, p) for a, p in self.edge_pairs(u, lab, st)):
+                return True
+            return any(inside(part) for part in self.edge_parts(u, lab, st))
+        return not self._search(settled)
+
+    def feasible(self) -> bool:
+        """some feasible path arrives at the site (with a value that can pass the final test)"""
+        return bool(self.sites) and self._search(lambda u, lab, st: False)
 
     def evaluates(self, wanted) -> bool:
         """
@@ -824,11 +1443,26 @@ class _Paths:
         """
         memo: dict = {}
 
+        def swallowed(a: ast.AST) -> bool:
+            """inside `with suppress(...)`: a failing evaluation does not end the path, it only ends the block"""
+            return any(isinstance(w, (ast.With, ast.AsyncWith)) and any(isinstance(i.context_expr, ast.Call) and (chain(i.context_expr.func) or "").split(".")[-1] == "suppress" for i in w.items)
+                       for w in ancestors(a))
+
         def node_has(u) -> bool:
             if u not in memo:
-                memo[u] = u.kind in ("stmt", "cond") and any(_safe_expr(wanted, x) for x in _unconditional(u.ast))
+                memo[u] = u.kind in ("stmt", "cond") and not swallowed(u.ast) and any(_safe_expr(wanted, x) for x in _unconditional(u.ast))
             return memo[u]
-        return bool(self.sites) and not self._search(lambda u, lab, st: False, through=node_has)
+
+        def inside(part) -> bool:
+            """the tested outcome of a followed helper is only produced after the helper evaluated it (told in this function's terms, .get() kept as written)"""
+            fr, subs = part
+            k = ("part", id(fr))
+            if k not in memo:
+                def lifted(e: ast.AST, fr=fr) -> bool:
+                    return isinstance(e, (ast.Subscript, ast.Call, ast.Attribute)) and bool(wanted(fr.lift(e, ())))
+                memo[k] = bool(subs) and all(sp.evaluates(lifted) for sp in subs)
+            return memo[k]
+        return bool(self.sites) and not self._search(lambda u, lab, st: any(inside(part) for part in self.edge_parts(u, lab, st)), through=node_has)
 
     def passes(self, edge) -> bool:
         """Every feasible path to the site takes a CFG edge with edge(u, lab)."""
@@ -859,43 +1493,99 @@ class _Paths:
 
 
 # ------------------------------------------------------------------------------------ registration table
-def known_hash_layout(ctx: Ctx) -> dict[str, int]:
+def _table_writes(fi: FuncInfo, table: str) -> list:
+    """(statement, key expression, value expression) of every `table[k] = v` / `table.update({k: v})` / `table.__setitem__(k, v)` / `table |= {k: v}` in fi"""
+    out = []
+    for st in walk_no_nested(fi.node):
+        if isinstance(st, ast.Assign) and len(st.targets) == 1 and isinstance(st.targets[0], ast.Subscript) and norm(st.targets[0].value) == table \
+                and not isinstance(st.targets[0].slice, ast.Slice):
+            out.append((st, st.targets[0].slice, st.value))
+        elif isinstance(st, ast.AnnAssign) and st.value is not None and isinstance(st.target, ast.Subscript) and norm(st.target.value) == table:
+            out.append((st, st.target.slice, st.value))
+        elif isinstance(st, ast.AugAssign) and norm(st.target) == table and isinstance(st.op, ast.BitOr) and isinstance(st.value, ast.Dict) and len(st.value.keys) == 1 and st.value.keys[0] is not None:
+            out.append((st, st.value.keys[0], st.value.values[0]))
+        elif isinstance(st, ast.Expr) and isinstance(st.value, ast.Call) and isinstance(st.value.func, ast.Attribute) and norm(st.value.func.value) == table and not st.value.keywords:
+            c = st.value
+            if c.func.attr == "update" and len(c.args) == 1 and isinstance(c.args[0], ast.Dict) and len(c.args[0].keys) == 1 and c.args[0].keys[0] is not None:
+                out.append((st, c.args[0].keys[0], c.args[0].values[0]))
+            elif c.func.attr == "__setitem__" and len(c.args) == 2:
+                out.append((st, c.args[0], c.args[1]))
+    return out
+
+
+def known_hash_layout(ctx: Ctx) -> dict:
+    """
+    position of name / public_key / metadata / time in a registration, read from what add_known_hash stores - a tuple
+    display, or a NamedTuple-like record built positionally or by keyword (then "#attrs" maps each of the four to the
+    attribute that also reads it).  Every write add_known_hash (or a private helper it calls) makes to the table has to
+    be that registration of the hash it was given: a write under another key, or of other data, creates or renews a
+    registration - and its five minutes - that the user did not ask for.
+    """
+    _use(ctx)
     fi = ctx.repo.method("IdentityCommunity", "add_known_hash", IC)
-    sts = [s for s, t in stores(fi, "self.known_attestation_hashes[]") if isinstance(s, ast.Assign) and len(s.targets) == 1]
-    owner, lift = fi, (lambda e: e)
-    if not sts:
-        # the store lives in a helper that add_known_hash calls: read it there, in add_known_hash's terms
-        for c in calls(fi):
-            fr = _follow(ctx, fi, c, "k_")
-            st2 = [s for s, t in stores(fr.hf, "self.known_attestation_hashes[]") if isinstance(s, ast.Assign) and len(s.targets) == 1] if fr else []
-            if st2:
-                sts, owner, lift = st2, fr.hf, fr.lift
-                break
-    ctx.anchor(sts, "known_attestation_hashes[...] = (...) in add_known_hash")
-    tup = resolve(owner, sts[0].value)
-    if not isinstance(tup, ast.Tuple):
-        raise AnalysisError("anchor-lost: add_known_hash no longer stores a tuple literal")
+    table = "self.known_attestation_hashes"
+    writes = [(fi, (lambda e: e), st, k, v) for st, k, v in _table_writes(fi, table)]
+
+    def below(g: FuncInfo, lift, depth: int, seen: tuple) -> None:
+        for c in calls(g):
+            fr = _follow(ctx, g, c, f"k{depth}_")
+            if fr is None or not _private_helper(g, fr) or fr.hf.node in seen or depth > 2:
+                continue
+            l2 = (lambda e, fr=fr, lift=lift: lift(fr.lift(e)))
+            writes.extend((fr.hf, l2, st, k, v) for st, k, v in _table_writes(fr.hf, table))
+            below(fr.hf, l2, depth + 1, (*seen, g.node))
+    below(fi, (lambda e: e), 1, ())
+    ctx.anchor(writes, "known_attestation_hashes[...] = (...) in add_known_hash")
     p = fi.params()
-    layout = {}
-    for i, e in enumerate(tup.elts):
-        e = lift(e)
-        t = _x(fi, e)
-        if t == p[2]:
-            layout["name"] = i
-        elif t == p[3]:
-            layout["public_key"] = i
-        elif t == p[4]:
-            layout["metadata"] = i
-        else:
-            e2 = _expand(fi, e)
-            if isinstance(e2, ast.Call) and chain(e2.func) in ("time", "time.time") and not e2.args:
-                layout["time"] = i
-    if set(layout) != {"name", "public_key", "metadata", "time"}:
-        raise AnalysisError(f"anchor-lost: add_known_hash tuple layout {layout}")
-    # the key is (a padded form of) the attribute hash parameter and involves no other argument
-    key_names = {n.id for n in ast.walk(_expand(fi, lift(sts[0].targets[0].slice))) if isinstance(n, ast.Name)}
-    key_ok = p[1] in key_names and not key_names & set(p[2:])
-    ctx.check(key_ok, "should-sign", fi, sts[0], "registration keyed by the attribute hash", "registration is keyed by something other than the attribute hash")
+
+    def slots(owner: FuncInfo, lift, val: ast.AST):
+        """({slot: position}, attribute names) of a stored value whose four components are the call's name, time(), subject key and metadata; else None"""
+        tup = resolve(owner, val)
+        attrs: list = []
+        if isinstance(tup, ast.Call) and not any(isinstance(a, ast.Starred) for a in tup.args) and all(k.arg is not None for k in tup.keywords):
+            rf = _record_fields(owner.module, tup.func)
+            if rf is not None and rf[1]:
+                # a positional record (NamedTuple): component i is field i, whichever way the constructor was called
+                elts = [_field_expr(owner, tup, ("idx", i)) for i in range(len(rf[0]))]
+                if all(e is not None for e in elts):
+                    attrs = [n for n, _d in rf[0]]
+                    tup = ast.Tuple(elts=elts, ctx=ast.Load())
+        if not isinstance(tup, ast.Tuple) or any(isinstance(e, ast.Starred) for e in tup.elts):
+            return None
+        layout: dict = {}
+        for i, e in enumerate(tup.elts):
+            e = lift(e)
+            t = _x(fi, e)
+            if t == p[2]:
+                layout["name"] = i
+            elif t == p[3]:
+                layout["public_key"] = i
+            elif t == p[4]:
+                layout["metadata"] = i
+            else:
+                e2 = _expand(fi, e)
+                if isinstance(e2, ast.Call) and chain(e2.func) in ("time", "time.time") and not e2.args:
+                    layout["time"] = i
+        if set(layout) != {"name", "public_key", "metadata", "time"}:
+            return None
+        layout["#attrs"] = {k: attrs[i] for k, i in layout.items()} if attrs else {}
+        return layout
+    shapes = [slots(owner, lift, v) for owner, lift, _st, _k, v in writes]
+    layout = next((x for x in shapes if x is not None), None)
+    if layout is None:
+        tup = resolve(writes[0][0], writes[0][4])
+        if not isinstance(tup, (ast.Tuple, ast.Call)):
+            raise AnalysisError("anchor-lost: add_known_hash no longer stores a tuple literal")
+        raise AnalysisError("anchor-lost: add_known_hash tuple layout not (name, time(), public_key, metadata) in some order")
+    for (owner, lift, st, key, _v), shape in zip(writes, shapes):
+        # the key is (a padded form of) the attribute hash parameter and involves no other argument
+        key_names = {n.id for n in ast.walk(_expand(fi, lift(key))) if isinstance(n, ast.Name)}
+        key_ok = p[1] in key_names and not key_names & set(p[2:])
+        ctx.check(key_ok and shape == layout, "should-sign", owner, st, "add_known_hash writes only the registration of the hash it was given: keyed by the attribute hash, "
+                  "holding that call's name, time(), subject key and metadata",
+                  f"{owner.qualname} writes the consent table under a key other than the attribute hash it was given, or stores something other than that call's "
+                  "(name, time(), subject key, metadata): a registration - and its 300 s window - then exists or is renewed without the user having registered that exact "
+                  "hash for that subject, name and metadata, and should_sign attests on the strength of it")
     return layout
 
 
@@ -903,24 +1593,40 @@ def _is_time_call(e: ast.AST) -> bool:
     return isinstance(e, ast.Call) and chain(e.func) in ("time", "time.time") and not e.args and not e.keywords
 
 
-def _approving_exits(ctx: Ctx, fi: FuncInfo, sat=None, truth=True, tk=("truthy", True), *, depth: int = 0, getsub: tuple[str, ...] = ()) -> list:
+def _approving_exits(ctx: Ctx, fi: FuncInfo, sat=None, truth=True, tk=("truthy", True), *, depth: int = 0, getsub: tuple[str, ...] = (),  # noqa: C901, PLR0913
+                     path: tuple = (), feasible_only: bool = False) -> list:
     """
-    One _Paths per way in which fi can hand back a value v with sat(v) (default: a truthy value): every `return` whose
-    value is not a constant of the other kind (a non-constant value counts on the arrivals where it passes the test), and
-    falling off the end when None passes the test.
+    One _Paths per way in which fi can hand back a value v whose component `path` (the value itself when empty) satisfies
+    sat (default: a truthy value): every `return` whose value - or that component of it, where the return shows how the
+    value is built - is not a constant of the other kind (a non-constant counts on the arrivals where it can pass the
+    test), and falling off the end when None passes the test.  feasible_only: drop exits no feasible path arrives at.
     """
     sat = sat or (lambda v: bool(v))
+    _use(ctx)
     cfg = ctx.cfg(fi)
     out = []
+
+    def passes(cv) -> bool:
+        try:
+            return bool(sat(cv))
+        except Exception:  # noqa: BLE001
+            return True
     rets = [r for r in walk_no_nested(fi.node) if isinstance(r, ast.Return)]
     for r in rets:
-        v = resolve(fi, r.value) if r.value is not None else ast.Constant(value=None)
-        if const_value(v) is not NOCONST:
-            if sat(const_value(v)):
+        given = r.value if r.value is not None else ast.Constant(value=None)
+        v = resolve(fi, given)
+        for step in path:
+            v = resolve(fi, _field_expr(fi, v, step)) if v is not None else None
+        cv = _global_const(fi, v) if v is not None else NOCONST
+        if cv is not NOCONST:
+            if passes(cv):
                 out.append(_Paths(ctx, fi, r, depth=depth, getsub=getsub))
-        else:
-            out.append(_Paths(ctx, fi, r, final=(r.value, sat, truth, tk), depth=depth, getsub=getsub))
-    if sat(None):
+            continue
+        # a local that holds one of several constructions is read in the state of each arrival
+        p = _Paths(ctx, fi, r, final=(_with_path(given, path) if path else r.value, sat, truth, tk), depth=depth, getsub=getsub)
+        if not feasible_only or not p.sites or p.feasible():
+            out.append(p)
+    if passes(None) and not path:
         falls = [u for u, lab in cfg.exit.pred if not isinstance(u.ast, ast.Return) and cfg.reachable(u)]
         if falls:
             out.append(_Paths(ctx, fi, cfg.exit, avoid=[n for r in rets for n in cfg.nodes_for(r)], depth=depth, getsub=getsub))
@@ -939,29 +1645,62 @@ def _attested_refusal(ctx: Ctx, fi: FuncInfo, approving: list, text, local, over
         return isinstance(e, ast.Compare) and len(e.ops) == 1 and isinstance(e.ops[0], ast.Eq) and \
             {text(e.left), text(e.comparators[0])} == {authority(local(att)), mykey}
 
-    def comp_over(g: ast.AST):
-        """loop variable of a one-generator comprehension over the attestations, else None"""
+    def looked_at(g: ast.AST | None):
+        """
+        How an iterable expression looks at the attestations over the metadata: "elt" - one `authority == our key` verdict per
+        attestation; "if" - the attestations whose authority is our key; "key" - the authority of every attestation.  None
+        for anything else.
+        """
+        g = strip_cast(g) if g is not None else None
+        while isinstance(g, ast.Call) and chain(g.func) in ("list", "tuple", "set", "frozenset", "iter", "sorted") and len(g.args) == 1 and not g.keywords:
+            g = strip_cast(g.args[0])
+        if isinstance(g, ast.Call) and chain(g.func) == "map" and len(g.args) == 2 and not g.keywords and text(g.args[1]) == over:
+            fn = strip_cast(g.args[0])
+            if isinstance(fn, ast.Lambda) and len(fn.args.args) == 1 and not (fn.args.posonlyargs or fn.args.vararg or fn.args.kwarg or fn.args.kwonlyargs):
+                att = fn.args.args[0].arg
+                if authority_eq(fn.body, att):
+                    return "elt"
+                return "key" if text(fn.body) == authority(local(att)) else None
+            return "key" if isinstance(fn, ast.Attribute) and text(fn) + "(x)" == authority("x") else None
         if isinstance(g, (ast.GeneratorExp, ast.ListComp, ast.SetComp)) and len(g.generators) == 1:
             c = g.generators[0]
-            if not c.is_async and not c.ifs and isinstance(c.target, ast.Name) and text(c.iter) == over:
-                return c.target.id
+            if c.is_async or not isinstance(c.target, ast.Name) or text(c.iter) != over:
+                return None
+            att = c.target.id
+            if len(c.ifs) == 1 and authority_eq(c.ifs[0], att):
+                return "if"
+            if c.ifs:
+                return None
+            if authority_eq(g.elt, att):
+                return "elt"
+            if isinstance(g.elt, ast.Compare) and len(g.elt.ops) == 1 and isinstance(g.elt.ops[0], ast.NotEq) \
+                    and authority_eq(ast.Compare(left=g.elt.left, ops=[ast.Eq()], comparators=g.elt.comparators), att):
+                return "neq"
+            return "key" if text(g.elt) == authority(local(att)) else None
         return None
 
-    def refusing_fact(f: Fact) -> bool:
+    def refusing_fact(f: Fact) -> bool:  # noqa: PLR0911
         """the fact says: no attestation over the metadata has us as its authority"""
         e = f.left
-        if f.op == "truthy" and not f.pos and isinstance(e, ast.Call) and chain(e.func) == "any" and len(e.args) == 1 and not e.keywords:
-            att = comp_over(e.args[0])
-            return att is not None and authority_eq(e.args[0].elt, att)
-        if f.op == "truthy" and f.pos and isinstance(e, ast.Call) and chain(e.func) == "all" and len(e.args) == 1 and not e.keywords:
-            att = comp_over(e.args[0])
-            elt = e.args[0].elt if att is not None else None
-            if isinstance(elt, ast.Compare) and len(elt.ops) == 1 and isinstance(elt.ops[0], ast.NotEq):
-                return authority_eq(ast.Compare(left=elt.left, ops=[ast.Eq()], comparators=elt.comparators), att)
-            return False
+        call = chain(e.func) if isinstance(e, ast.Call) and not e.keywords else None
+        if f.op == "truthy" and not f.pos and call == "any" and len(e.args) == 1:
+            return looked_at(e.args[0]) == "elt"
+        if f.op == "truthy" and f.pos and call == "all" and len(e.args) == 1:
+            return looked_at(e.args[0]) == "neq"
         if f.op == "in" and not f.pos and text(f.left) == mykey:
-            att = comp_over(f.right)
-            return att is not None and text(f.right.elt) == authority(local(att))
+            return looked_at(f.right) == "key"
+        # nothing selected: not [a for a in ... if authority(a) == us] / len(...) == 0 / next((...), None) is None
+        if f.op == "truthy" and not f.pos and not isinstance(e, ast.GeneratorExp):
+            return looked_at(e) == "if" and not isinstance(strip_cast(e), ast.GeneratorExp)
+        if f.op == "is" and f.pos and const_value(f.right) is None and call == "next" and len(e.args) == 2 and const_value(e.args[1]) is None:
+            return looked_at(e.args[0]) == "if"
+        if f.op == "eq" and f.pos:
+            for a, b in ((f.left, f.right), (f.right, f.left)):
+                if const_value(b) == 0 and not isinstance(const_value(b), bool) and isinstance(a, ast.Call) and not a.keywords and len(a.args) == 1:
+                    if chain(a.func) == "len" and not isinstance(strip_cast(a.args[0]), ast.GeneratorExp):
+                        return looked_at(a.args[0]) == "if"
+                    if chain(a.func) == "sum":
+                        return looked_at(a.args[0]) == "elt" or (looked_at(a.args[0]) == "if" and const_value(getattr(strip_cast(a.args[0]), "elt", None)) == 1)
         return False
 
     def any_over_bytes(e: ast.AST) -> bool:
@@ -998,11 +1737,12 @@ def _attested_refusal(ctx: Ctx, fi: FuncInfo, approving: list, text, local, over
         if not ok and depth < 2:
             # the decision is taken by a helper whose verdict every approving arrival has tested
             for a, q in p.all_pairs():
-                s, sat, truth, tk = _subject(a, q)
+                s, sat, truth, tk = _subject(a, q, p.gc)
+                s, path, _moved = p._producer(s, tuple([-1] * len(p.tracked)))  # noqa: SLF001
                 fr = _follow(ctx, fi, s, f"a{depth + 1}_", p.getsub)
                 if fr is None:
                     continue
-                sub = _approving_exits(ctx, fr.hf, sat, truth, tk, depth=depth + 1, getsub=p.getsub)
+                sub = _approving_exits(ctx, fr.hf, sat, truth, tk, depth=depth + 1, getsub=p.getsub, path=tuple(path), feasible_only=True)
                 if not sub:
                     continue
                 if _attested_refusal(ctx, fr.hf, sub, lambda e, fr=fr: text(fr.lift(e)), lambda n, fr=fr: local(fr.tag + n if n in fr.locals else n),
@@ -1025,7 +1765,8 @@ def rule_should_sign(ctx: Ctx) -> None:  # noqa: C901, PLR0912, PLR0915
     fi = _unrolled(ctx, repo.method("IdentityCommunity", "should_sign", IC))
     pseud, meta = fi.params()[1], fi.params()[2]
     TABLE = "self.known_attestation_hashes"
-    GS = (TABLE, _c(f"{pseud}.tree.elements"), "#tuples")      # tables read with .get(), locals unpacked from a tuple
+    # tables read with .get(), locals unpacked from a tuple, registration fields read by attribute
+    GS = (TABLE, _c(f"{pseud}.tree.elements"), "#tuples", *[f"#field:{TABLE}:{a}={lay[k]}" for k, a in lay["#attrs"].items()])
     approving = _approving_exits(ctx, fi, getsub=GS)
     ctx.check(bool(approving), "should-sign", fi, fi.node, "should_sign has an approving exit; every one of them is examined",
               "should_sign has no approving exit that can be examined")
@@ -1059,7 +1800,8 @@ def rule_should_sign(ctx: Ctx) -> None:  # noqa: C901, PLR0912, PLR0915
         if f.op == "in" and f.pos and X(f.left) == key and X(f.right) in (table, _c(f"{table}.keys()")):
             return True
         raw = _x(fi, f.left, tuple(g for g in GS if g != table))
-        if raw in (_c(f"{table}.get({key})"), _c(f"{table}.get({key}, None)")):
+        # table[key] itself under test: it was evaluated (a missing key raises), or stands for a .get() read in a helper
+        if raw in (_c(f"{table}.get({key})"), _c(f"{table}.get({key}, None)"), _c(f"{table}[{key}]")):
             return (f.op == "truthy" and f.pos) or (f.op == "is" and not f.pos and f.right is not None and const_value(f.right) is None)
         return False
 
@@ -1085,29 +1827,38 @@ def rule_should_sign(ctx: Ctx) -> None:  # noqa: C901, PLR0912, PLR0915
         if f.op == "in" and f.pos and const_value(f.left) == k and X(f.right) in key_forms:
             return True
         # {"name", ...} <= keys  /  keys >= {...}   (fact_of spells both as: not (keys < literal))
+        def setlit(e: ast.AST):
+            """the members of a set-valued literal (a set display, frozenset(...) / set(...) of a literal, a module constant holding one)"""
+            e = _expand(fi, e)
+            if isinstance(e, ast.Set) or (isinstance(e, ast.Call) and chain(e.func) in ("frozenset", "set")):
+                return _const_set(e)
+            return None
         if f.op == "lt" and not f.pos and isinstance(f.atom, ast.Compare) and isinstance(f.atom.ops[0], (ast.LtE, ast.GtE)):
-            rr = _expand(fi, f.right)
-            lit = _const_set(rr) if isinstance(rr, ast.Set) else None
+            lit = setlit(f.right)
             return lit is not None and k in lit and X(f.left) in key_forms[:2]
         if f.op == "truthy" and isinstance(f.left, ast.Call) and isinstance(f.left.func, ast.Attribute) and len(f.left.args) == 1 and not f.left.keywords:
             recv, a = f.left.func.value, f.left.args[0]
-            if f.pos and f.left.func.attr == "issubset" and isinstance(recv, ast.Set):
-                return k in (_const_set(recv) or ()) and X(a) in key_forms
+            if f.pos and f.left.func.attr == "issubset" and setlit(recv) is not None:
+                return k in setlit(recv) and X(a) in key_forms
             if f.pos and f.left.func.attr == "issuperset" and X(recv) in set_forms:
                 return k in (_const_set(_expand(fi, a)) or ())
             # not ({"name", ...} - keys)   /   not {"name", ...}.difference(keys)
-            if not f.pos and f.left.func.attr == "difference" and isinstance(recv, ast.Set):
-                return k in (_const_set(recv) or ()) and X(a) in key_forms
-        if f.op == "truthy" and not f.pos and isinstance(f.left, ast.BinOp) and isinstance(f.left.op, ast.Sub) and isinstance(f.left.left, ast.Set):
-            return k in (_const_set(f.left.left) or ()) and X(f.left.right) in (*set_forms, key_forms[1])
-        if f.op == "truthy" and f.pos and isinstance(f.left, ast.Call) and chain(f.left.func) == "all" and len(f.left.args) == 1 and not f.left.keywords:
-            # all(k in keys for k in ("name", "date", "schema"))
+            if not f.pos and f.left.func.attr == "difference" and setlit(recv) is not None:
+                return k in setlit(recv) and X(a) in key_forms
+        if f.op == "truthy" and not f.pos and isinstance(f.left, ast.BinOp) and isinstance(f.left.op, ast.Sub) and setlit(f.left.left) is not None:
+            return k in setlit(f.left.left) and X(f.left.right) in (*set_forms, key_forms[1])
+        quant = chain(f.left.func) if f.op == "truthy" and isinstance(f.left, ast.Call) and len(f.left.args) == 1 and not f.left.keywords else None
+        if (quant == "all" and f.pos) or (quant == "any" and not f.pos):
+            # all(k in keys for k in ("name", "date", "schema"))  /  not any(k not in keys for k in (...))  /  all(map(keys.__contains__, (...)))
             g = f.left.args[0]
             if isinstance(g, (ast.GeneratorExp, ast.ListComp)) and len(g.generators) == 1 and not g.generators[0].ifs and isinstance(g.generators[0].target, ast.Name):
                 c, var = g.elt, g.generators[0].target.id
                 lit = _const_set(_expand(fi, g.generators[0].iter))
-                return lit is not None and k in lit and isinstance(c, ast.Compare) and len(c.ops) == 1 and isinstance(c.ops[0], ast.In) \
+                return lit is not None and k in lit and isinstance(c, ast.Compare) and len(c.ops) == 1 and isinstance(c.ops[0], ast.In if quant == "all" else ast.NotIn) \
                     and isinstance(c.left, ast.Name) and c.left.id == var and X(c.comparators[0]) in key_forms
+            if quant == "all" and isinstance(g, ast.Call) and chain(g.func) == "map" and len(g.args) == 2 and not g.keywords:
+                fn, lit = strip_cast(g.args[0]), _const_set(_expand(fi, g.args[1]))
+                return lit is not None and k in lit and isinstance(fn, ast.Attribute) and fn.attr == "__contains__" and X(fn.value) in key_forms
         return False
 
     def absent(f) -> bool:
@@ -1403,18 +2154,37 @@ def rule_attested_memory(ctx: Ctx) -> None:
 
 
 # ------------------------------------------------------------------------------------ attesting
+def _reg_field(x: ast.AST | None, entries, lay: dict, field: str) -> bool:
+    """x reads `field` of a registration spelled as one of `entries`: by position, or by the attribute name when registrations are records"""
+    if isinstance(x, ast.Subscript) and norm(x.value) in entries:
+        return const_value(x.slice) == lay[field] and not isinstance(const_value(x.slice), bool)
+    return isinstance(x, ast.Attribute) and norm(x.value) in entries and lay["#attrs"].get(field) == x.attr
+
+
 def _selection(e: ast.AST | None, lay: dict[str, int], peerkey: str):
     """
     e is a comprehension over the registration table.  Returns (where, elt) with where = "elt" when the element itself is
     the test `registered subject key == sender's key`, "if" when one of the filters is that test, "key" when the element
     is the registered subject key (unfiltered); None when e is not such a comprehension.
     """
+    table = "self.known_attestation_hashes"
+    if isinstance(e, ast.Call) and chain(e.func) == "map" and len(e.args) == 2 and not e.keywords and norm(e.args[1]) == f"{table}.values()":
+        # map(itemgetter(<key position>), table.values()) / map(lambda t: t[<key position>], table.values()): the registered subject keys
+        f = strip_cast(e.args[0])
+        pos = None
+        if isinstance(f, ast.Call) and _lib(chain(f.func)) == "itemgetter" and len(f.args) == 1 and not f.keywords:
+            pos = const_value(f.args[0])
+        elif isinstance(f, ast.Call) and _lib(chain(f.func)) == "attrgetter" and len(f.args) == 1 and not f.keywords and lay["#attrs"].get("public_key") is not None:
+            pos = lay["public_key"] if const_value(f.args[0]) == lay["#attrs"]["public_key"] else None
+        elif isinstance(f, ast.Lambda) and len(f.args.args) == 1 and not (f.args.posonlyargs or f.args.vararg or f.args.kwarg or f.args.kwonlyargs) \
+                and _reg_field(f.body, [f.args.args[0].arg], lay, "public_key"):
+            pos = lay["public_key"]
+        return "key" if pos == lay["public_key"] and not isinstance(pos, bool) else None
     if not isinstance(e, (ast.GeneratorExp, ast.ListComp, ast.SetComp, ast.DictComp)) or len(e.generators) != 1:
         return None
     g = e.generators[0]
     if g.is_async:
         return None
-    table = "self.known_attestation_hashes"
     it = norm(g.iter)
     entry: list[str] = []                       # spellings of "the registration this iteration looks at"
     if it == f"{table}.values()" and isinstance(g.target, ast.Name):
@@ -1427,7 +2197,7 @@ def _selection(e: ast.AST | None, lay: dict[str, int], peerkey: str):
         return None
 
     def reg_key(x: ast.AST) -> bool:
-        return isinstance(x, ast.Subscript) and norm(x.value) in entry and const_value(x.slice) == lay["public_key"] and not isinstance(const_value(x.slice), bool)
+        return _reg_field(x, entry, lay, "public_key")
 
     def test(c: ast.AST) -> bool:
         if isinstance(c, ast.Compare) and len(c.ops) == 1 and isinstance(c.ops[0], ast.Eq):
@@ -1437,7 +2207,7 @@ def _selection(e: ast.AST | None, lay: dict[str, int], peerkey: str):
     if any(test(c) for c in g.ifs):
         return "if"
     if isinstance(e, ast.DictComp):
-        return None
+        return "key" if reg_key(e.key) and not g.ifs else None        # an index of the registrations by subject key
     if test(e.elt):
         return "elt"
     if reg_key(e.elt) and not g.ifs:
@@ -1486,10 +2256,11 @@ def _solicited_fact(f: Fact, lay: dict[str, int], peerkey: str) -> bool:  # noqa
     return False
 
 
-def _solicited_call(ctx: Ctx, fi: FuncInfo, call: ast.AST, lay: dict[str, int], peerkey: str, depth: int = 0) -> bool:  # noqa: C901
+def _solicited_call(ctx: Ctx, fi: FuncInfo, call: ast.AST, lay: dict[str, int], peerkey: str, depth: int = 0, *, outcome=None, path: tuple = ()) -> bool:  # noqa: C901, PLR0913
     """
-    `call` is a helper of the own class that hands back something truthy only if some registration's subject key equals
-    the sender's key: every truthy return is either such an expression itself or is reached only after the comparison
+    `call` is a helper of the own class that hands back something truthy (or, with outcome=(sat, truth, key) and path,
+    a value whose component `path` passes that test) only if some registration's subject key equals the sender's key:
+    every such return is either such an expression itself or is reached only after the comparison
     `entry[<key position>] == <sender's key>` succeeded for an entry the helper took from the registration table in a loop.
     """
     fr = _follow(ctx, fi, call, f"o{depth + 1}_")
@@ -1517,8 +2288,7 @@ def _solicited_call(ctx: Ctx, fi: FuncInfo, call: ast.AST, lay: dict[str, int], 
             return False
         for a, b in ((f.left, f.right), (f.right, f.left)):
             a2 = _expand(hf, a, (table,))
-            if isinstance(a2, ast.Subscript) and norm(a2.value) in entries and const_value(a2.slice) == lay["public_key"] and not isinstance(const_value(a2.slice), bool) \
-                    and _x(fi, fr.lift(b)) == peerkey:
+            if _reg_field(a2, entries, lay, "public_key") and _x(fi, fr.lift(b)) == peerkey:
                 return True
         return False
 
@@ -1530,7 +2300,7 @@ def _solicited_call(ctx: Ctx, fi: FuncInfo, call: ast.AST, lay: dict[str, int], 
         if _solicited_fact(fact_of(la, q), lay, peerkey):
             return True
         return False
-    exits = _approving_exits(ctx, hf)
+    exits = _approving_exits(ctx, hf) if outcome is None else _approving_exits(ctx, hf, *outcome, path=path, feasible_only=True)
     return bool(exits) and all(p.holds(says) for p in exits)
 
 
@@ -1553,29 +2323,58 @@ def _tuple_elem(fi: FuncInfo, e: ast.AST | None):
     return None, None
 
 
-def _sites_below(ctx: Ctx, fi: FuncInfo, want, *, lift=None, outer=(), depth: int = 0, seen=()) -> list:
+def _effective_call(fi: FuncInfo, c: ast.Call) -> ast.Call:
+    """
+    c itself, or - when the callee is a functools.partial object made in fi (`send = partial(self.ez_send, peer)` ...
+    `send(x)`) - the call it amounts to, frozen arguments first.  The returned node stands at c's place (same parent, same
+    position), so that paths, facts and findings are those of c.
+    """
+    f = strip_cast(c.func)
+    made = resolve(fi, f) if isinstance(f, ast.Name) else f if isinstance(f, ast.Call) else None
+    if not (isinstance(made, ast.Call) and _lib(chain(made.func)) == "partial" and made.args and not any(isinstance(a, ast.Starred) for a in made.args)
+            and all(k.arg is not None for k in made.keywords)):
+        return c
+    eff = ast.copy_location(ast.Call(func=made.args[0], args=[*made.args[1:], *c.args], keywords=[*made.keywords, *c.keywords]), c)
+    eff._parent = parent(c)  # noqa: SLF001
+    return eff
+
+
+def _sites_below(ctx: Ctx, fi: FuncInfo, want) -> list:
     """
     The calls accepted by want(call) in fi and in the own-class private helpers fi calls (transitively), each with what
     is known when it is reached, told in fi's name space: (owner function, call, [Fact], lift) where lift rewrites an
     expression of the owner into fi's terms.
     """
+    return [t[:4] for t in _sites_below_ex(ctx, fi, want)]
+
+
+def _sites_below_ex(ctx: Ctx, fi: FuncInfo, want, *, lift=None, outer=(), trail=(), depth: int = 0, seen=()) -> list:
+    """as _sites_below, with a fifth component: the feasible-path objects the site lies behind, outermost first, as (_Paths, lift) pairs"""
     lift = lift or (lambda e: e)
     out = []
-    for c in calls(fi):
+
+    def wanted(c: ast.Call) -> bool:
         if want(c):
+            return True
+        # told in the handler's terms (a helper object reaches the community through what it was constructed with)
+        return depth > 0 and bool(want(ast.Call(func=lift(c.func), args=c.args, keywords=c.keywords)))
+    for c in calls(fi):
+        eff = _effective_call(fi, c)
+        if wanted(eff):
             p = _Paths(ctx, fi, c)
-            out.append((fi, c, [*outer, *[fact_of(lift(a), q) for a, q in p.all_pairs()]], lift))
+            out.append((fi, eff, [*outer, *[fact_of(lift(a), q) for a, q in p.all_pairs()]], lift, (*trail, (p, lift))))
             continue
         if depth >= 3:
             continue
         fr = _follow(ctx, fi, c, f"s{depth + 1}_", generators=True)
-        if fr is None or fr.hf.cls is None or fr.hf.cls is not fi.cls or fr.hf.node in seen or not fr.hf.name.startswith("_") or fr.hf.name.startswith("__"):
+        if fr is None or not _private_helper(fi, fr) or fr.hf.node in seen:
             continue
-        if not any(want(x) for x in _calls_deep(ctx, fr.hf, 3 - depth)):
+        if fr.self_expr is None and not any(want(x) for x in _calls_deep(ctx, fr.hf, 3 - depth)):
             continue
         p = _Paths(ctx, fi, c)
         here = [*outer, *[fact_of(lift(a), q) for a, q in p.all_pairs()]]
-        out.extend(_sites_below(ctx, fr.hf, want, lift=lambda e, fr=fr, lift=lift: lift(fr.lift(e)), outer=here, depth=depth + 1, seen=(*seen, fi.node)))
+        out.extend(_sites_below_ex(ctx, fr.hf, want, lift=lambda e, fr=fr, lift=lift: lift(fr.lift(e)), outer=here, trail=(*trail, (p, lift)),
+                                   depth=depth + 1, seen=(*seen, fi.node)))
     return out
 
 
@@ -1584,60 +2383,245 @@ def _calls_deep(ctx: Ctx, fi: FuncInfo, depth: int) -> list:
     if depth > 0:
         for c in list(out):
             fr = _follow(ctx, fi, c, "x_", generators=True)
-            if fr is not None and fr.hf.cls is fi.cls and fi.cls is not None and fr.hf.name.startswith("_") and not fr.hf.name.startswith("__"):
+            if fr is not None and _private_helper(fi, fr):
                 out.extend(_calls_deep(ctx, fr.hf, depth - 1))
     return out
 
 
-def rule_attest(ctx: Ctx) -> None:  # noqa: C901, PLR0912
+def _plain_reference(e: ast.AST) -> bool:
+    """a name / attribute / constant-subscript chain: evaluating it twice names the same object (nothing is computed)"""
+    while isinstance(e, (ast.Attribute, ast.Subscript)):
+        if isinstance(e, ast.Subscript) and const_value(e.slice) is NOCONST:
+            return False
+        e = strip_cast(e.value)
+    return isinstance(e, ast.Name)
+
+
+def _substantiated_as_received(fi: FuncInfo, call: ast.Call, peer: str) -> bool:
+    """
+    substantiate(<sender>.public_key, <the received disclosure>): the key is the authenticated sender's, and the
+    serialized parts are what the handler was given - expressions over its never-rebound parameters (one tuple
+    parameter spread with *, or one parameter per part), nothing the node keeps itself.
+    """
+    if any(k.arg is None for k in call.keywords) or not call.args or isinstance(call.args[0], ast.Starred):
+        return False
+    key = arg(call, 0, "public_key")
+    if key is None or _x(fi, key) != f"{peer}.public_key":
+        return False
+    rest = [a.value if isinstance(a, ast.Starred) else a for a in call.args[1:]] + [k.value for k in call.keywords if k.arg != "public_key"]
+    if not rest:
+        return False
+    params = set(fi.params()) - {"self", peer}
+    for a in rest:
+        e = _expand(fi, a)
+        bound = {x for n in ast.walk(e) if isinstance(n, (ast.ListComp, ast.SetComp, ast.DictComp, ast.GeneratorExp)) for x in _comp_bound(n)}
+        for n in ast.walk(e):
+            if isinstance(n, ast.Name) and n.id not in bound and n.id not in ("cast", "bytes", "tuple", "list") \
+                    and (local_defs(fi, n.id) or n.id not in params):
+                return False
+            if isinstance(n, ast.Call) and chain(n.func) not in ("cast", "bytes", "tuple", "list"):
+                return False
+    return True
+
+
+def _origin(ctx: Ctx, fi: FuncInfo, e: ast.AST | None, path: tuple = (), depth: int = 0) -> tuple:  # noqa: C901, PLR0911
+    """
+    (call, path): the value of e.<path> is component `path` of what `call` returned - followed through single-assignment
+    locals, tuple unpacking, visible constructions (tuple displays, result objects) and own private helpers that hand the
+    value on.  The call is one whose callee is not read (another object's method).  (None, None) when e does not show this.
+    """
+    if e is None or depth > 10:
+        return None, None
+    e = strip_cast(e)
+    if path:
+        fe = _field_expr(fi, e, path[0])
+        if fe is not None:
+            return _origin(ctx, fi, fe, path[1:], depth + 1)
+    if isinstance(e, ast.Name):
+        d = single_def(fi, e.id) or _agreeing_defs(fi, e.id)
+        if d is None:
+            return None, None
+        return _origin(ctx, fi, d[0], ((("idx", d[1]),) if d[1] is not None else ()) + tuple(path), depth + 1)
+    step = _step_of(e) if isinstance(e, (ast.Attribute, ast.Subscript)) else None
+    if step is not None and _global_const(fi, e) is NOCONST:
+        return _origin(ctx, fi, e.value, (step, *path), depth + 1)
+    if isinstance(e, ast.Call):
+        fr = _follow(ctx, fi, e, f"g{depth + 1}_")
+        if fr is not None and _private_helper(fi, fr):
+            rets = [r for r in walk_no_nested(fr.hf.node) if isinstance(r, ast.Return)]
+            falls = [u for u, lab in ctx.cfg(fr.hf).exit.pred if not isinstance(u.ast, ast.Return) and ctx.cfg(fr.hf).reachable(u)]
+            got = {_origin(ctx, fr.hf, r.value, tuple(path), depth + 1) for r in rets} if rets and not falls else {(None, None)}
+            return next(iter(got)) if len(got) == 1 else (None, None)
+        return e, tuple(path)
+    return None, None
+
+
+def _consent_filtered(ctx: Ctx, owner: FuncInfo, it: ast.AST | None, is_pseudonym, depth: int = 0) -> str | None:  # noqa: C901, PLR0911, PLR0912
+    """
+    Every element x the iterable `it` of owner yields has passed self.should_sign(<the substantiated pseudonym>, x<suffix>):
+    the suffix ("" for the element itself, ".metadata" for its metadata ...) is returned, "*" when nothing is yielded at
+    all, None when the iterable is not known to be filtered like that.  Read: a comprehension / filter() / takewhile()
+    filtered by that call, a selection or copy of such (islice, list, sorted ...), an empty display, or a local that only
+    ever holds such values and is not changed in place.
+    """
+    it = strip_cast(it) if it is not None else None
+    if it is None or depth > 6:
+        return None
+    if _empty_display(it):
+        return "*"
+
+    def consent(c: ast.AST, elt: ast.AST) -> str | None:
+        """suffix such that condition c includes should_sign(pseudonym, <elt><suffix>)"""
+        c = strip_cast(c)
+        if isinstance(c, ast.BoolOp) and isinstance(c.op, ast.And):
+            return next((r for r in (consent(v, elt) for v in c.values) if r is not None), None)
+        if not (isinstance(c, ast.Call) and chain(c.func) == "self.should_sign" and len(c.args) == 2 and not c.keywords and not any(isinstance(a, ast.Starred) for a in c.args)):
+            return None
+        a1, et = strip_cast(c.args[1]), norm(strip_cast(elt))
+        if not _plain_reference(a1) or not _plain_reference(strip_cast(elt)) or not is_pseudonym(c.args[0]):
+            return None
+        t = norm(a1)
+        return "" if t == et else t[len(et):] if t.startswith(et + ".") else None
+
+    def merged(parts: list) -> str | None:
+        real = {x for x in parts if x != "*"}
+        if any(x is None for x in parts) or len(real) > 1:
+            return None
+        return next(iter(real)) if real else "*"
+    if isinstance(it, ast.Name):
+        if it.id in owner.params() or not _only_read(owner, it.id):
+            return None
+        ds = local_defs(owner, it.id)
+        if not ds or any(v is None or i is not None or not isinstance(st, (ast.Assign, ast.AnnAssign)) for st, v, i in ds):
+            return None
+        return merged([_consent_filtered(ctx, owner, v, is_pseudonym, depth + 1) for st, v, i in ds])
+    if isinstance(it, (ast.ListComp, ast.SetComp, ast.GeneratorExp)) and len(it.generators) == 1 and not it.generators[0].is_async:
+        g = it.generators[0]
+        for c in g.ifs:
+            r = consent(c, it.elt)
+            if r is not None:
+                return r
+        # a plain pass-through of an already filtered iterable
+        if isinstance(it.elt, ast.Name) and isinstance(g.target, ast.Name) and it.elt.id == g.target.id:
+            return _consent_filtered(ctx, owner, g.iter, is_pseudonym, depth + 1)
+        return None
+    if isinstance(it, ast.Call) and not any(isinstance(a, ast.Starred) for a in it.args):
+        f = _lib(chain(it.func))
+        if f in ("list", "tuple", "iter", "sorted", "reversed", "set", "frozenset") and len(it.args) == 1:
+            return _consent_filtered(ctx, owner, it.args[0], is_pseudonym, depth + 1)
+        if f == "islice" and it.args and not it.keywords:
+            return _consent_filtered(ctx, owner, it.args[0], is_pseudonym, depth + 1)
+        if f in ("filter", "takewhile") and len(it.args) == 2 and not it.keywords:
+            fn = resolve(owner, it.args[0])
+            if isinstance(fn, ast.Call) and _lib(chain(fn.func)) == "partial" and len(fn.args) == 2 and not fn.keywords \
+                    and chain(fn.args[0]) == "self.should_sign" and not isinstance(fn.args[1], ast.Starred) and is_pseudonym(fn.args[1]):
+                return ""
+            if isinstance(fn, ast.Lambda) and len(fn.args.args) == 1 and not (fn.args.posonlyargs or fn.args.vararg or fn.args.kwarg or fn.args.kwonlyargs):
+                r = consent(fn.body, ast.Name(id=fn.args.args[0].arg, ctx=ast.Load()))
+                if r is not None:
+                    return r
+            return _consent_filtered(ctx, owner, it.args[1], is_pseudonym, depth + 1)
+    return None
+
+
+def rule_attest(ctx: Ctx) -> None:  # noqa: C901, PLR0912, PLR0915
+    _use(ctx)
     repo = ctx.repo
     lay = known_hash_layout(ctx)
     fi = repo.method("IdentityCommunity", "_received_disclosure_for_attest", IC)
-    peer, disc = fi.params()[1], fi.params()[2]
+    peer = fi.params()[1]
     peerkey = _c(f"{peer}.public_key.key_to_bin()")
-    stable = not local_defs(fi, peer) and not local_defs(fi, disc)
+    stable = not any(local_defs(fi, x) for x in fi.params()[1:3])
 
     def is_create(c: ast.Call) -> bool:
         return call_name(c) == "create_attestation"
 
     def is_send(c: ast.Call) -> bool:
         return chain(c.func) == "self.ez_send" and mentions(c, "AttestPayload")
-    found = _sites_below(ctx, fi, lambda c: is_create(c) or is_send(c))
+    found = _sites_below_ex(ctx, fi, lambda c: is_create(c) or is_send(c))
     ctx.floor("attest-only-if-consented", len(found), 2)
-    sub = [c for c in calls(fi, "self.identity_manager.substantiate")]
-    ok_sub = stable and len(sub) == 1 and _x(fi, arg(sub[0], 0)) == f"{peer}.public_key" and len(sub[0].args) == 2 \
-        and isinstance(sub[0].args[1], ast.Starred) and _x(fi, sub[0].args[1].value) == disc and not sub[0].keywords
+    # the one place where the disclosure is loaded (in the handler or in a private helper it calls), in the handler's terms
+    subs = _sites_below_ex(ctx, fi, lambda c: chain(c.func) == "self.identity_manager.substantiate")
+    sub = subs[0][1] if subs else None
+    ok_sub = False
+    if stable and len(subs) == 1:
+        lf = subs[0][3]
+        told = ast.Call(func=sub.func, args=[ast.Starred(value=lf(a.value), ctx=ast.Load()) if isinstance(a, ast.Starred) else lf(a) for a in sub.args],
+                        keywords=[ast.keyword(arg=k.arg, value=lf(k.value)) for k in sub.keywords])
+        ok_sub = _substantiated_as_received(fi, told, peer)
     ctx.check(ok_sub, "attest-only-if-consented", fi, fi.node, "disclosure substantiated under the authenticated sender's key", "the disclosure is validated under a key other than the sender's")
+    everywhere = _Paths(ctx, fi, ctx.cfg(fi).exit)
+    nostate = tuple([-1] * len(everywhere.tracked))
+
+    # substantiate may hand back a positional result object instead of a bare pair: its fields also name the two components
+    sb = repo.method("IdentityManager", "substantiate", IM)
+    sb_rets = [r for r in walk_no_nested(sb.node) if isinstance(r, ast.Return)]
+    sb_rv = resolve(sb, sb_rets[0].value) if len(sb_rets) == 1 else None
+    sb_rf = _record_fields(sb.module, sb_rv.func) if isinstance(sb_rv, ast.Call) else None
+    sb_names = [n for n, _d in sb_rf[0]] if sb_rf is not None and sb_rf[1] and len(sb_rf[0]) == 2 else [None, None]
+
+    def from_sub(e: ast.AST | None, pos: int) -> bool:
+        """e is component pos of what the one substantiate call returned"""
+        call, path = _origin(ctx, fi, e)
+        return sub is not None and call is sub and path in ((("idx", pos),), (("attr", sb_names[pos]),))
+
+    def solicited_eval(e: ast.AST) -> bool:
+        """evaluating e raises unless some registration's subject key equals the sender's key"""
+        e = _expand(fi, e)
+        if isinstance(e, ast.Call) and chain(e.func) == "next" and len(e.args) == 1 and not e.keywords:
+            return _selection(_unwrapped_iter(e.args[0]), lay, peerkey) == "if"
+        if isinstance(e, ast.Subscript) and isinstance(e.ctx, ast.Load) and norm(e.slice) == peerkey:
+            return isinstance(e.value, ast.DictComp) and _selection(e.value, lay, peerkey) == "key"
+        if isinstance(e, ast.Call) and isinstance(e.func, ast.Attribute) and e.func.attr == "index" and len(e.args) == 1 and not e.keywords and norm(e.args[0]) == peerkey:
+            return _selection(_unwrapped_iter(e.func.value), lay, peerkey) == "key"
+        return False
     approved: dict = {}
-    for owner, s, fs, lift in found:
-        sol = cor = False
-        ss = None
+    for owner, s, fs, lift, trail in found:
+        sol = cor = ss_ok = False
         for f in fs:
             e = _expand(fi, f.atom)
-            fe = fact_of(e, _pair_of(f)[1])
+            outcome_of = _pair_of(f)[1]
+            fe = fact_of(e, outcome_of)
             via = _simple_callee_value(ctx, fi, e)
-            if _solicited_fact(fe, lay, peerkey) or (f.pos and via is not None and _solicited_expr(via, lay, peerkey)) \
-                    or (f.op == "truthy" and f.pos and _solicited_call(ctx, fi, resolve(fi, f.left), lay, peerkey)):
+            if _solicited_fact(fe, lay, peerkey) or (f.pos and via is not None and _solicited_expr(via, lay, peerkey)):
                 sol = True
+            elif not sol:
+                # a verdict of a helper (a flag, an Enum member, a field of a result object) that is only produced for a solicited sender
+                subj, sat, truth, tk = _subject(f.atom, outcome_of, everywhere.gc)
+                producer, path, _moved = everywhere._producer(subj, nostate)  # noqa: SLF001
+                if isinstance(producer, ast.Call) and _solicited_call(ctx, fi, producer, lay, peerkey, outcome=(sat, truth, tk), path=tuple(path)):
+                    sol = True
             if f.op == "truthy" and f.pos:
-                prod, idx = _tuple_elem(fi, f.left)
-                if sub and prod is sub[0] and idx == 0:
+                if from_sub(f.left, 0):
                     cor = True
                 r = resolve(fi, f.left)
-                if isinstance(r, ast.Call) and chain(r.func) == "self.should_sign":
-                    ss = r
-        ss_ok = False
-        if ss is not None and len(ss.args) == 2 and not ss.keywords and not any(isinstance(a, ast.Starred) for a in ss.args):
-            prod, idx = _tuple_elem(fi, ss.args[0])
-            md = _x(fi, ss.args[1])
-            steady = all(len(local_defs(fi, n.id)) <= 1 for n in ast.walk(ss.args[1]) if isinstance(n, ast.Name))
-            ss_ok = bool(sub) and prod is sub[0] and idx == 1 and steady and isinstance(strip_cast(ss.args[1]), ast.Attribute) and strip_cast(ss.args[1]).attr == "metadata"
-            if ss_ok:
-                approved[id(s)] = md
+                if isinstance(r, ast.Call) and chain(r.func) == "self.should_sign" and len(r.args) == 2 and not r.keywords and not any(isinstance(a, ast.Starred) for a in r.args):
+                    steady = all(len(local_defs(fi, n.id)) <= 1 for n in ast.walk(r.args[1]) if isinstance(n, ast.Name))
+                    if from_sub(r.args[0], 1) and steady and _plain_reference(strip_cast(r.args[1])):
+                        ss_ok = True
+                        approved[id(s)] = _x(fi, r.args[1])
+        if not sol:
+            # the sender's registration is looked up in a way that raises when there is none
+            sol = any(p.evaluates(lambda e, lf=lf: solicited_eval(lf(e))) for p, lf in trail)
+        if not ss_ok:
+            # the site works through a collection that was filtered by should_sign: consent is a property of each element
+            for loop in [a for a in ancestors(s) if isinstance(a, (ast.For, ast.AsyncFor))]:
+                tg = loop.target
+                if not isinstance(tg, ast.Name) or len(local_defs(owner, tg.id)) != 1 or tg.id in owner.params():
+                    continue
+                suffix = _consent_filtered(ctx, owner, loop.iter, lambda e, lift=lift: from_sub(lift(e), 1))
+                if suffix is not None:
+                    # what was approved for this element: <loop variable><suffix> (nothing is attested from a collection that is always empty)
+                    a0 = arg(s, 0, "metadata") if is_create(s) else None
+                    if not is_create(s) or suffix == "*" or (a0 is not None and _plain_reference(strip_cast(a0)) and norm(strip_cast(a0)) == tg.id + suffix):
+                        ss_ok = True
+                        if is_create(s) and a0 is not None:
+                            approved[id(s)] = _x(fi, lift(a0))
+                        break
         ctx.check(sol and cor and ss_ok, "attest-only-if-consented", owner, s,
                   "attesting dominated by: solicited sender, correct substantiation, should_sign(pseudonym, credential.metadata)",
                   f"an attestation can be created/sent without the owner's consent checks (solicited={sol} correct={cor} should_sign={ss_ok})", [str(f) for f in fs])
-    for owner, c, _fs, lift in found:
+    for owner, c, _fs, lift, _trail in found:
         if not is_create(c):
             continue
         a0, a1 = arg(c, 0, "metadata"), arg(c, 1, "private_key")
@@ -1657,10 +2641,38 @@ def _substantiate(ctx: Ctx) -> None:  # noqa: C901
     cfg = ctx.cfg(sb)
     p = sb.params()
     pseudo = _c(f"self.get_pseudonym({p[1]})")
+    _use(ctx)
     rets = [r for r in walk_no_nested(sb.node) if isinstance(r, ast.Return)]
     rv = resolve(sb, rets[0].value) if len(rets) == 1 else None
+    if isinstance(rv, ast.Call) and (_record_fields(sb.module, rv.func) or (None, False))[1]:
+        # a positional result object (NamedTuple): callers still unpack it as (flag, pseudonym)
+        parts = [_field_expr(sb, rv, ("idx", i)) for i in range(len(_record_fields(sb.module, rv.func)[0]))]
+        rv = ast.Tuple(elts=parts, ctx=ast.Load()) if all(x is not None for x in parts) else rv
     ok = isinstance(rv, ast.Tuple) and len(rv.elts) == 2 and not local_defs(sb, p[1]) and not local_defs(sb, p[3])
     why = "substantiate no longer returns (flag, pseudonym) from a single exit"
+    listed: list[ast.AST] = []                    # verdicts appended to a list whose all(...) is (part of) the flag
+
+    def verdict_list(e: ast.AST):
+        """(elements of the display the list starts as, values appended later) for `all(<local list>)`, the list only ever being appended to; else None"""
+        e = strip_cast(e)
+        if not (isinstance(e, ast.Call) and chain(e.func) == "all" and len(e.args) == 1 and not e.keywords and isinstance(strip_cast(e.args[0]), ast.Name)):
+            return None
+        name = strip_cast(e.args[0]).id
+        ds = local_defs(sb, name)
+        if name in sb.params() or len(ds) != 1 or ds[0][2] is not None or not isinstance(strip_cast(ds[0][1]) if ds[0][1] is not None else None, ast.List):
+            return None
+        first, more = list(strip_cast(ds[0][1]).elts), []
+        if any(isinstance(x, ast.Starred) for x in first):
+            return None
+        for n in ast.walk(sb.node):
+            if isinstance(n, ast.Name) and n.id == name and isinstance(n.ctx, ast.Load) and n is not strip_cast(e.args[0]):
+                par, call = parent(n), parent(parent(n))
+                if isinstance(par, ast.Attribute) and par.attr == "append" and isinstance(call, ast.Call) and call.func is par and len(call.args) == 1 and not call.keywords \
+                        and isinstance(parent(call), ast.Expr):
+                    more.append(call.args[0])
+                else:
+                    return None
+        return first, more
 
     def conjuncts(e: ast.AST) -> list:
         e = strip_cast(e)
@@ -1683,6 +2695,10 @@ def _substantiate(ctx: Ctx) -> None:  # noqa: C901
             elif isinstance(e, ast.Name) and local_defs(sb, e.id):
                 if e.id not in flags:
                     flags.append(e.id)
+            elif verdict_list(e) is not None:
+                first, more = verdict_list(e)
+                todo.extend(x for v in first for x in conjuncts(v))
+                listed.extend(more)
             else:
                 direct.append(e)
     if ok:
@@ -1721,7 +2737,7 @@ def _substantiate(ctx: Ctx) -> None:  # noqa: C901
                 return any(is_chain_verdict(v) for v in e.values)
             return isinstance(e, ast.Call) and norm(e.func) == _c(f"{pseudo}.tree.unserialize_public") and len(e.args) == 1 \
                 and not e.keywords and norm(e.args[0]) == p[3]
-        inits, anded, false_nodes, lower_nodes = [], [], [], []
+        inits, anded, false_nodes, lower_nodes = [], [x for v in listed for x in conjuncts(v)], [], []
         for name in flags:
             for s, v, i in local_defs(sb, name):
                 low = lowering(name, s, v) if i is None else None
@@ -1796,6 +2812,22 @@ def _contexts(ctx: Ctx, fi: FuncInfo, site: ast.AST, depth: int = 0) -> list:
     """
     here = _Paths(ctx, fi, site).facts()
     alone = [(fi, here, lambda e: e)]
+    if depth < 3 and fi.cls is not None and fi.cls.name.startswith("_") and fi.name not in ("__init__", "__new__") and _ctor_layout(fi.cls) is not None:
+        # a method of a private parameter-holder object runs where such an object is called, with self.<attribute> being the constructor arguments
+        out = []
+        for g in fi.module.all_functions:
+            for c in calls(g):
+                held = _holder_method(g, c.func)
+                if held is None or held[0].node is not fi.node:
+                    continue
+                fr = _Frame(g, c, fi, f"u{depth + 1}_", self_expr=held[1])
+                if not fr.ok:
+                    return alone
+                for root, facts, lift in _contexts(ctx, g, c, depth + 1):
+                    def l3(e, fr=fr, lift=lift):
+                        return lift(fr.lift(e))
+                    out.append((root, [*facts, *[fact_of(l3(a), q) for a, q in map(_pair_of, here)]], l3))
+        return out or alone
     if depth >= 3 or fi.cls is None or not fi.name.startswith("_") or fi.name.startswith("__"):
         return alone
     sites = []
@@ -1858,27 +2890,192 @@ def _verify_is_for_given_key(ctx: Ctx) -> None:
                   "an attestation signed by another key then 'verifies' for the sender and on_attest / add_attestation store it as made by the sender")
 
 
+def _holder_only_made_in(ctx: Ctx, k, home) -> bool:
+    """k is a private parameter-holder class whose instances are only ever made inside methods of `home` (and it is not subclassed or handed around)"""
+    if k is None or not k.name.startswith("_") or _ctor_layout(k) is None or k.subclasses:
+        return False
+    made = 0
+    for n in ast.walk(k.module.tree):
+        if isinstance(n, ast.Name) and n.id == k.name and isinstance(n.ctx, ast.Load):
+            par = parent(n)
+            if isinstance(par, ast.Call) and par.func is n:
+                g = ctx.repo.function_of(par)
+                if g is None or g.cls is not home:
+                    return False
+                made += 1
+            elif not any(isinstance(a, ast.arg) or (isinstance(a, ast.AnnAssign) and any(x is n for x in ast.walk(a.annotation)))
+                         or (isinstance(a, (ast.FunctionDef, ast.AsyncFunctionDef)) and a.returns is not None and any(x is n for x in ast.walk(a.returns)))
+                         for a in ancestors(n)):
+                return False                      # the class itself is used as a value
+    for m in ctx.repo.modules.values():
+        if m is not k.module and k.name in m.imports:
+            return False
+    return made > 0
+
+
+def _invocations(ctx: Ctx, g: FuncInfo, node: ast.AST, depth: int = 0) -> list | None:  # noqa: C901, PLR0911, PLR0912
+    """
+    Where the callable that expression `node` of g evaluates to is called: [([Fact], args, keywords)] told in g's name
+    space - the facts that hold at the call, and what it is called with.  The callable may be called on the spot, kept in
+    a single-assignment local, or handed to a helper whose body can be read (then the helper's parameter is followed).
+    None when it goes anywhere else (returned, stored, passed to unknown code): its calls cannot be enumerated.
+    """
+    par = parent(node)
+    if isinstance(par, ast.Call) and par.func is node:
+        return [(_Paths(ctx, g, par).facts(), list(par.args), list(par.keywords))]
+    if (isinstance(par, (ast.Tuple, ast.List)) and any(x is node for x in par.elts)) or (isinstance(par, ast.Dict) and any(x is node for x in par.values)):
+        # an entry of a dispatch table: it is the one called where the table is indexed with its position / key
+        picks = _table_picks(g, par)
+        if picks is None:
+            return None
+        out = []
+        for sub in picks:
+            call = parent(sub)
+            if not (isinstance(call, ast.Call) and call.func is sub):
+                return None
+            if isinstance(par, ast.Dict):
+                key = par.keys[next(i for i, x in enumerate(par.values) if x is node)]
+                kc = const_value(key) if key is not None else NOCONST
+                if kc is NOCONST:
+                    return None
+                picked = fact_of(sub.slice, kc) if isinstance(kc, bool) else fact_of(ast.Compare(left=sub.slice, ops=[ast.Eq()], comparators=[key]), True)
+            else:
+                i = next(i for i, x in enumerate(par.elts) if x is node)
+                if any(isinstance(x, ast.Starred) for x in par.elts):
+                    return None
+                # a pair indexed by a flag: entry 1 for a true flag, entry 0 for a false one (anything else does not pick this entry)
+                picked = fact_of(sub.slice, i == 1) if len(par.elts) == 2 else fact_of(ast.Compare(left=sub.slice, ops=[ast.Eq()], comparators=[ast.Constant(value=i)]), True)
+            out.append(([*_Paths(ctx, g, call).facts(), picked], list(call.args), list(call.keywords)))
+        return out
+    if isinstance(par, (ast.Assign, ast.AnnAssign, ast.NamedExpr)) and par.value is node:
+        tg = par.targets[0] if isinstance(par, ast.Assign) and len(par.targets) == 1 else getattr(par, "target", None)
+        if not isinstance(tg, ast.Name) or tg.id in g.params() or len(local_defs(g, tg.id)) != 1:
+            return None
+        return _name_invocations(ctx, g, tg.id, depth)
+    call = par if isinstance(par, ast.Call) else parent(par) if isinstance(par, ast.keyword) else None
+    if isinstance(call, ast.Call) and depth < 3:
+        fr = _follow(ctx, g, call, f"t{depth + 1}_")
+        if fr is None:
+            return None
+        pname = next((k for k, v in fr.bind.items() if v is node), None)
+        if pname is None or pname in fr.locals:
+            return None
+        sub = _name_invocations(ctx, fr.hf, pname, depth + 1)
+        if sub is None:
+            return None
+        here = _Paths(ctx, g, call).facts()
+        out = []
+        for facts, args, kws in sub:
+            lifted = [fact_of(fr.lift(a), q) for a, q in map(_pair_of, facts)]
+            out.append(([*here, *lifted], [ast.Starred(value=fr.lift(a.value), ctx=ast.Load()) if isinstance(a, ast.Starred) else fr.lift(a) for a in args],
+                        [ast.keyword(arg=k.arg, value=fr.lift(k.value)) for k in kws]))
+        return out
+    return None
+
+
+def _table_picks(g: FuncInfo, table: ast.AST) -> list | None:
+    """the subscripts `table[key]` that read the literal table (used on the spot or kept in a single-assignment local); None when it goes elsewhere"""
+    par = parent(table)
+    if isinstance(par, ast.Subscript) and par.value is table and isinstance(par.ctx, ast.Load) and not isinstance(par.slice, ast.Slice):
+        return [par]
+    if isinstance(par, (ast.Assign, ast.AnnAssign)) and par.value is table:
+        tg = par.targets[0] if isinstance(par, ast.Assign) and len(par.targets) == 1 else getattr(par, "target", None)
+        if not isinstance(tg, ast.Name) or tg.id in g.params() or len(local_defs(g, tg.id)) != 1:
+            return None
+        out = []
+        for n in ast.walk(g.node):
+            if isinstance(n, ast.Name) and n.id == tg.id and isinstance(n.ctx, ast.Load):
+                p2 = parent(n)
+                if not (isinstance(p2, ast.Subscript) and p2.value is n and isinstance(p2.ctx, ast.Load) and not isinstance(p2.slice, ast.Slice)):
+                    return None
+                out.append(p2)
+        return out
+    return None
+
+
+def _name_invocations(ctx: Ctx, g: FuncInfo, name: str, depth: int) -> list | None:
+    own = {id(n) for n in walk_no_nested(g.node)}
+    out = []
+    for n in ast.walk(g.node):
+        if isinstance(n, ast.Name) and n.id == name and isinstance(n.ctx, ast.Load):
+            if id(n) not in own:
+                return None                       # read inside a nested function: called at an unknown time
+            r = _invocations(ctx, g, n, depth)
+            if r is None:
+                return None
+            out.extend(r)
+    return out
+
+
+def _store_calls(ctx: Ctx, name: str) -> list:
+    """
+    Every way IdentityDatabase.<name> gets called from the identity package: (module, function, node the call is made
+    from, the call as (args, keywords), [facts that hold whenever it runs, in the function's terms]).  Besides plain calls
+    this reads `functools.partial(db.<name>, a, b)`: the call happens where the partial object is called, with the frozen
+    arguments first.  Any other use of the method as a value cannot be enumerated and is reported as undecided.
+    """
+    out = []
+    for m, fi, a in ctx.repo.attribute_uses(name):
+        if not m.relpath.startswith("ipv8/attestation/identity/") or m.relpath.endswith("database.py") or not isinstance(a.ctx, ast.Load):
+            continue
+        par = parent(a)
+        if isinstance(par, ast.Call) and par.func is a:
+            lam = next((x for x in ancestors(par) if isinstance(x, (ast.Lambda, ast.FunctionDef, ast.AsyncFunctionDef))), None)
+            if fi is not None and isinstance(lam, ast.Lambda):
+                # the call is the body of a lambda: it runs where the lambda is called, with the lambda's parameters bound there
+                inv = _invocations(ctx, fi, lam)
+                la = lam.args
+                if inv is None or la.vararg or la.kwarg or la.kwonlyargs or la.defaults:
+                    raise AnalysisError(f"undecided: {fi.qualname} calls {name} inside a lambda (`{head(enclosing_stmt(a))[:80]}`); where the lambda ends up being called could not be followed")
+                names = [x.arg for x in [*la.posonlyargs, *la.args]]
+                for fs, args, kws in inv:
+                    if kws or len(args) != len(names) or any(isinstance(x, ast.Starred) for x in args):
+                        raise AnalysisError(f"undecided: arguments of the lambda around {name} in {fi.qualname}")
+                    mapping = dict(zip(names, args))
+
+                    class Sub(ast.NodeTransformer):
+                        def visit_Name(self, n, mapping=mapping):  # noqa: N802
+                            return clone(mapping[n.id]) if n.id in mapping and isinstance(n.ctx, ast.Load) else n
+                    eff = ast.Call(func=a, args=[Sub().visit(clone(x)) for x in par.args], keywords=[ast.keyword(arg=k.arg, value=Sub().visit(clone(k.value))) for k in par.keywords])
+                    out.append((m, fi, par, eff, fs))
+            elif fi is not None:
+                out.append((m, fi, par, par, []))
+            continue
+        if fi is None:
+            raise AnalysisError(f"undecided: {name} is taken as a value at module level of {m.relpath}")
+        thunk = par if isinstance(par, ast.Call) and _lib(chain(par.func)) == "partial" and par.args and par.args[0] is a \
+            and not any(isinstance(x, ast.Starred) for x in par.args) and all(k.arg is not None for k in par.keywords) else None
+        # the bound method as a value: frozen into a partial, kept in a local, put into a dispatch table, handed to a helper
+        inv = _invocations(ctx, fi, thunk if thunk is not None else a)
+        if inv is None:
+            raise AnalysisError(f"undecided: {fi.qualname} takes `{norm(a)}` as a value (`{head(enclosing_stmt(a))[:80]}`); where it ends up being called could not be followed")
+        frozen_a, frozen_k = (thunk.args[1:], thunk.keywords) if thunk is not None else ([], [])
+        for fs, args, kws in inv:
+            out.append((m, fi, thunk if thunk is not None else a, ast.Call(func=a, args=[*frozen_a, *args], keywords=[*frozen_k, *kws]), fs))
+    return out
+
+
 def rule_store(ctx: Ctx) -> None:
     repo = ctx.repo
     pm = repo.cls("PseudonymManager", IM)
     n = 0
-    for m, fi, c in [*repo.callers_of_name("insert_attestation"), *repo.callers_of_name("insert_metadata")]:
-        if fi is None or not m.relpath.startswith("ipv8/attestation/identity/") or m.relpath.endswith("database.py"):
-            continue
+    for meth, (m, fi, c, eff, extra) in [(k, t) for k in ("insert_attestation", "insert_metadata") for t in _store_calls(ctx, k)]:
         n += 1
-        ctx.check(fi.cls is pm, "store-only-valid", fi, c, f"{call_name(c)} called from PseudonymManager", f"{call_name(c)} is called outside PseudonymManager's verifying methods")
-        if fi.cls is not pm:
+        inside = fi.cls is pm or _holder_only_made_in(ctx, fi.cls, pm)
+        ctx.check(inside, "store-only-valid", fi, c, f"{meth} called from PseudonymManager", f"{meth} is called outside PseudonymManager's verifying methods")
+        if not inside:
             continue
         ok, shown = True, []
         for root, fs, lift in _contexts(ctx, fi, c):
+            fs = [*fs, *[fact_of(lift(a), q) for a, q in map(_pair_of, extra)]]
             shown = [str(f) for f in fs]
-            if call_name(c) == "insert_attestation":
-                a0, a1, a2 = arg(c, 0, "public_key"), arg(c, 1, "authority_key"), arg(c, 2, "attestation")
+            if meth == "insert_attestation":
+                a0, a1, a2 = arg(eff, 0, "public_key"), arg(eff, 1, "authority_key"), arg(eff, 2, "attestation")
                 ok = ok and None not in (a0, a1, a2) and _verify_fact(root, fs, _x(root, lift(a2)), _x(root, lift(a1))) and _x(root, lift(a0)) == "self.public_key"
             else:
-                a0, a1 = arg(c, 0, "public_key"), arg(c, 1, "metadata")
+                a0, a1 = arg(eff, 0, "public_key"), arg(eff, 1, "metadata")
                 ok = ok and None not in (a0, a1) and _verify_fact(root, fs, _x(root, lift(a1)), "self.public_key") and _x(root, lift(a0)) == "self.public_key"
-        if call_name(c) == "insert_attestation":
+        if meth == "insert_attestation":
             ctx.check(ok, "store-only-valid", fi, c, "attestation stored only if it verifies under the key recorded as its authority",
                       "an attestation is stored without being validly signed by the recorded authority", shown)
         else:
@@ -1965,7 +3162,91 @@ class _Prov:
 
     def is_peer(self, e: ast.AST) -> bool:
         e = resolve(self.fi, e)
-        return isinstance(e, ast.Name) and e.id in self.peers
+        if isinstance(e, ast.Name):
+            return e.id in self.peers
+        comps = self.components(e) if e is not None else None
+        return bool(comps) and all(pv.is_peer(x) for pv, x in comps)
+
+    def components(self, e: ast.AST) -> list | None:
+        """
+        [(provenance, expression)]: what e = <base>.<field> / <base>[<position>] can be when <base> shows how it was built - a
+        tuple display or result object, directly, through single-assignment locals, or as the returned value of a helper of
+        the own class (one alternative per return).  None when it does not.
+        """
+        step = _step_of(e) if isinstance(e, (ast.Attribute, ast.Subscript)) else None
+        if step is None:
+            return None
+        base = resolve(self.fi, e.value)
+        fe = _field_expr(self.fi, base, step)
+        if fe is not None:
+            return [(self, fe)]
+        if isinstance(base, ast.Call) and self.depth < 3:
+            fr = _follow(self.ctx, self.fi, base, "c_")
+            sub = self.sub(fr) if fr is not None else None
+            if sub is None:
+                return None
+            rets = [r for r in walk_no_nested(fr.hf.node) if isinstance(r, ast.Return)]
+            falls = [u for u, lab in self.ctx.cfg(fr.hf).exit.pred if not isinstance(u.ast, ast.Return)]
+            if not rets or falls:
+                return None
+            out = []
+            for r in rets:
+                fe = _field_expr(fr.hf, resolve(fr.hf, r.value), step) if r.value is not None else None
+                if fe is None:
+                    return None
+                out.append((sub, fe))
+            return out
+        return None
+
+    def counter(self, name: str) -> bool:
+        """a local that starts at a non-negative number and is only ever increased by non-negative steps"""
+        ds = local_defs(self.fi, name)
+        if name in self.fi.params() or not ds:
+            return False
+        for st, v, i in ds:
+            if isinstance(st, ast.AugAssign):
+                if not (isinstance(st.op, ast.Add) and self.nonneg(st.value)):
+                    return False
+            elif v is None or i is not None or not isinstance(st, (ast.Assign, ast.AnnAssign)):
+                return False
+            else:
+                v = strip_cast(v)
+                step = isinstance(v, ast.BinOp) and isinstance(v.op, ast.Add) and ((isinstance(v.left, ast.Name) and v.left.id == name and self.nonneg(v.right))
+                                                                                   or (isinstance(v.right, ast.Name) and v.right.id == name and self.nonneg(v.left)))
+                if not step and not self.nonneg(v):
+                    return False
+        return True
+
+    def nonneg(self, e: ast.AST | None, depth: int = 0) -> bool:  # noqa: PLR0911
+        """e is a number that is never negative: a constant, a length, a bound, an unsigned field of a received payload, sums / max(0, .) of such"""
+        e = strip_cast(e) if e is not None else None
+        if e is None or depth > 4:
+            return False
+        cv = const_value(e)
+        if cv is not NOCONST:
+            return isinstance(cv, int) and not isinstance(cv, bool) and cv >= 0
+        if self.bound(e):
+            return True
+        if isinstance(e, ast.Call) and chain(e.func) == "len" and len(e.args) == 1:
+            return True
+        if isinstance(e, ast.Call) and chain(e.func) == "max" and len(e.args) >= 2 and not e.keywords:
+            return any(self.nonneg(a, depth + 1) for a in e.args)
+        if isinstance(e, ast.BinOp) and isinstance(e.op, (ast.Add, ast.Mult)):
+            return self.nonneg(e.left, depth + 1) and self.nonneg(e.right, depth + 1)
+        if isinstance(e, ast.Name):
+            ds = local_defs(self.fi, e.id)
+            return bool(ds) and e.id not in self.fi.params() and all(v is not None and i is None and not isinstance(st, ast.AugAssign) and self.nonneg(v, depth + 1) for st, v, i in ds)
+        if isinstance(e, ast.Attribute) and isinstance(e.value, ast.Name) and e.value.id in self.fi.params() and not local_defs(self.fi, e.value.id):
+            # <payload parameter>.<field> packed with an unsigned format
+            ann = next((a.annotation for a in [*self.fi.node.args.posonlyargs, *self.fi.node.args.args, *self.fi.node.args.kwonlyargs] if a.arg == e.value.id), None)
+            c = self.ctx.repo.resolve_class_expr(self.fi.module, ann) if ann is not None else None
+            if c is not None:
+                names, fmts = c.lookup_attr("names"), c.lookup_attr("format_list")
+                if isinstance(names, (ast.List, ast.Tuple)) and isinstance(fmts, (ast.List, ast.Tuple)) and len(names.elts) == len(fmts.elts):
+                    for n, f in zip(names.elts, fmts.elts):
+                        if const_value(n) == e.attr:
+                            return const_value(f) in ("B", "H", "I", "Q", "L", ">B", ">H", ">I", ">Q", ">L")
+        return False
 
     def bound(self, e: ast.AST | None, depth: int = 0) -> bool:  # noqa: C901, PLR0911
         e = strip_cast(e) if e is not None else None
@@ -1978,7 +3259,12 @@ class _Prov:
             if e.id in self.fi.params():
                 return self.param_kinds.get(e.id) == "BOUND" and not local_defs(self.fi, e.id)
             ds = local_defs(self.fi, e.id)
-            return bool(ds) and all(v is not None and i is None and self.bound(v, depth + 1) for s, v, i in ds)
+            return bool(ds) and all(v is not None and not isinstance(s, ast.AugAssign) and self.bound(v if i is None else ast.Subscript(value=v, slice=ast.Constant(value=i), ctx=ast.Load()), depth + 1)
+                                    for s, v, i in ds)
+        if isinstance(e, (ast.Attribute, ast.Subscript)) and _step_of(e) is not None and norm(e.value) != "self.permissions":
+            comps = self.components(e)
+            if comps is not None:
+                return bool(comps) and all(pv.bound(x, depth + 1) for pv, x in comps)
         if isinstance(e, ast.Call) and chain(e.func) == "self.permissions.get" and not e.keywords and len(e.args) == 2:
             return self.is_peer(e.args[0]) and const_value(e.args[1]) == 0 and not isinstance(const_value(e.args[1]), bool)
         if isinstance(e, ast.Subscript) and norm(e.value) == "self.permissions" and not isinstance(e.slice, ast.Slice):
@@ -2031,11 +3317,17 @@ class _Prov:
             kinds.append(self.param_kinds.get(name))
         for st, v, idx in local_defs(self.fi, name):
             if isinstance(st, (ast.For, ast.AsyncFor)):
-                kinds.append(self.bind_target(st.target, self.kind(st.iter, {})).get(name))
+                ik = self.kind(st.iter, {})
+                if ik == "CPAIRS" and self.guarded_position(st, name):
+                    kinds.append("TOKEN")
+                    continue
+                kinds.append(self.bind_target(st.target, ik).get(name))
             elif isinstance(st, ast.AugAssign):
                 kinds.append(self.kind(st.value, {}) if isinstance(st.op, ast.Add) else None)
             elif v is not None and idx is None:
                 kinds.append(self.kind(v, {}))
+            elif v is not None:
+                kinds.append(self.unpacked_kind(st, name, self.kind(v, {})))
             else:
                 kinds.append(None)
         # in-place updates
@@ -2060,10 +3352,202 @@ class _Prov:
             self.memo[name] = k
         return k
 
+    @staticmethod
+    def unpacked_kind(st: ast.AST, name: str, k: str | None) -> str | None:
+        """kind of `name` bound by `a, *b, c = <value of kind k>`: a starred name keeps a part of the container, a plain one is an element"""
+        tg = st.targets[0] if isinstance(st, ast.Assign) and len(st.targets) == 1 else st.target if isinstance(st, ast.AnnAssign) else None
+        if not isinstance(tg, (ast.Tuple, ast.List)):
+            return None
+        for i, t in enumerate(tg.elts):
+            if isinstance(t, ast.Starred) and isinstance(t.value, ast.Name) and t.value.id == name:
+                return k if k in ("TOKENS", "CHUNKS", "EMPTY") else None
+            if isinstance(t, ast.Name) and t.id == name:
+                if k == "PAIR":
+                    return "TOKEN" if i == 1 and len(tg.elts) == 2 and not any(isinstance(x, ast.Starred) for x in tg.elts) else None
+                return _ELEM.get(k) if k in ("TOKENS", "CHUNKS") else None
+        return None
+
+    def applied(self, f: ast.AST | None, elem: str | None, env: dict) -> str | None:  # noqa: PLR0911
+        """kind of f(x) for x of kind elem, f a callable expression (lambda, methodcaller / itemgetter object, unbound method, bytes)"""
+        f = resolve(self.fi, f) if f is not None else None
+        if f is None or elem is None:
+            return None
+        if isinstance(f, ast.Lambda):
+            a = f.args
+            if len(a.args) + len(a.posonlyargs) != 1 or a.vararg or a.kwarg or a.kwonlyargs:
+                return None
+            return self.kind(f.body, {**env, [*a.posonlyargs, *a.args][0].arg: elem})
+        if isinstance(f, ast.Call) and not f.keywords and _lib(chain(f.func)) == "methodcaller" and len(f.args) == 1:
+            return "BYTES" if const_value(f.args[0]) == "get_plaintext_signed" and elem == "TOKEN" else None
+        if isinstance(f, ast.Call) and not f.keywords and _lib(chain(f.func)) == "itemgetter" and len(f.args) == 1:
+            i = const_value(f.args[0])
+            if isinstance(i, bool) or not isinstance(i, int):
+                return None
+            return "TOKEN" if elem == "PAIR" and i == 1 else None
+        if isinstance(f, ast.Attribute) and f.attr == "get_plaintext_signed" and isinstance(f.value, ast.Name) \
+                and not local_defs(self.fi, f.value.id) and f.value.id not in self.fi.params():
+            return "BYTES" if elem == "TOKEN" else None          # Token.get_plaintext_signed: the unbound method
+        if isinstance(f, ast.Name) and f.id in ("bytes", "bytearray") and not local_defs(self.fi, f.id):
+            return "BYTES" if elem == "BYTES" else None
+        return None
+
+    def concatenates(self, f: ast.AST | None) -> bool:
+        """f(a, b) is a + b"""
+        f = resolve(self.fi, f) if f is not None else None
+        if isinstance(f, ast.Lambda):
+            a = f.args
+            ps = [x.arg for x in [*a.posonlyargs, *a.args]]
+            b = f.body
+            return len(ps) == 2 and not (a.vararg or a.kwarg or a.kwonlyargs) and isinstance(b, ast.BinOp) and isinstance(b.op, ast.Add) \
+                and isinstance(b.left, ast.Name) and isinstance(b.right, ast.Name) and sorted([b.left.id, b.right.id]) == sorted(ps) and ps[0] != ps[1]
+        return f is not None and chain(f) in ("add", "operator.add", "concat", "operator.concat", "iadd", "operator.iadd", "iconcat", "operator.iconcat", "bytes.__add__")
+
+    def pipeline(self, f: str, e: ast.Call, env: dict):  # noqa: C901, PLR0911, PLR0912
+        """
+        Lazy pipelines (builtins / itertools / functools): every stage hands on a selection of what it was given (filter,
+        dropwhile, takewhile, islice, chain, next, max, min), something made per element (map), or concatenations of the
+        given byte strings (accumulate, reduce with +).  NotImplemented when f is none of these.
+        """
+        kw = {k.arg: k.value for k in e.keywords}
+        a = e.args
+        sel = ("TOKENS", "CHUNKS", "PAIRS", "EMPTY", "INDEXES")
+        if f in ("filter", "filterfalse", "dropwhile", "takewhile") and len(a) == 2 and not kw:
+            k = self.kind(a[1], env)
+            if k == "CPAIRS":
+                # pairs of the whole chain: bounded when the kept ones have a position below the bound
+                fn = resolve(self.fi, a[0])
+                if f in ("filter", "takewhile") and isinstance(fn, ast.Lambda) and len(fn.args.args) == 1 and not (fn.args.posonlyargs or fn.args.vararg or fn.args.kwarg or fn.args.kwonlyargs):
+                    p0 = fn.args.args[0].arg
+                    body = _PairIndex(p0).visit(clone(fn.body))
+                    if self.below_bound(body, p0 + "#0", {**env, p0: None, p0 + "#0": None}):
+                        return "PAIRS"
+                return k
+            return k if k in sel else None
+        if f == "islice" and 2 <= len(a) <= 4 and not kw:
+            k = self.kind(a[0], env)
+            if k in ("CHAIN", "CPAIRS"):
+                stop = a[1] if len(a) == 2 else a[2]
+                step = const_value(a[3]) if len(a) == 4 else 1
+                ok = isinstance(step, int) and not isinstance(step, bool) and step > 0 and self.bound(_sub_env(stop, env))
+                return {"CHAIN": "TOKENS", "CPAIRS": "PAIRS"}[k] if ok else None
+            return k if k in sel else None
+        if f == "range" and 1 <= len(a) <= 3 and not kw:
+            # positions below the bound, none of them negative
+            stop = a[0] if len(a) == 1 else a[1]
+            step = const_value(a[2]) if len(a) == 3 else 1
+            ok = isinstance(step, int) and not isinstance(step, bool) and step > 0 and self.bound(_sub_env(stop, env)) and (len(a) == 1 or self.nonneg(_sub_env(a[0], env)))
+            return "INDEXES" if ok else None
+        if f == "chain" and a and not kw:
+            k = self.unify([self.kind(x, env) for x in a])
+            return k if k in ("TOKENS", "CHUNKS", "EMPTY") else None
+        if f == "zip" and len(a) == 2 and not [x for x in kw if x != "strict"]:
+            first = strip_cast(a[0])
+            counter = isinstance(first, ast.Call) and _lib(chain(first.func)) in ("range", "count")
+            k = self.kind(a[1], env)
+            if k == "CHAIN":
+                # as many tokens from the start of the chain as there are positions below the bound
+                return "PAIRS" if self.kind(first, env) == "INDEXES" else None
+            return "PAIRS" if counter and k == "TOKENS" else None
+        if f == "map" and len(a) == 2 and not kw:
+            k = self.kind(a[1], env)
+            if k == "EMPTY":
+                return k
+            return _CONT.get(self.applied(a[0], _ELEM.get(k), env))
+        if f == "accumulate" and 1 <= len(a) <= 2 and not [x for x in kw if x not in ("func", "initial")] and not (len(a) == 2 and "func" in kw):
+            fn = a[1] if len(a) == 2 else kw.get("func")
+            init = kw.get("initial") if "initial" in kw and const_value(kw["initial"]) is not None else None
+            k = self.kind(a[0], env)
+            elem = "BYTES" if k == "EMPTY" else _ELEM.get(k)
+            acc = self.kind(init, env) if init is not None else elem
+            return "CHUNKS" if acc == "BYTES" and self.folded(fn, acc, elem, env) == "BYTES" else None
+        if f == "reduce" and 2 <= len(a) <= 3 and not kw:
+            k = self.kind(a[1], env)
+            elem = "BYTES" if k == "EMPTY" else _ELEM.get(k)
+            acc = self.kind(a[2], env) if len(a) == 3 else elem
+            return "BYTES" if acc == "BYTES" and self.folded(a[0], acc, elem, env) == "BYTES" else None
+        if f == "next" and 1 <= len(a) <= 2 and not kw:
+            k = _ELEM.get(self.kind(a[0], env))
+            if k is None or len(a) == 1:
+                return k
+            return self.unify([k, self.kind(a[1], env)])
+        if f in ("max", "min") and len(a) == 1 and not [x for x in kw if x not in ("key", "default")]:
+            k = _ELEM.get(self.kind(a[0], env))
+            if k is None or "default" not in kw:
+                return k
+            return self.unify([k, self.kind(kw["default"], env)])
+        if f in ("add", "concat", "iadd", "iconcat") and len(a) == 2 and not kw:
+            k = self.unify([self.kind(a[0], env), self.kind(a[1], env)])
+            return k if k in ("BYTES", "CHUNKS", "TOKENS", "EMPTY") else None
+        return NotImplemented
+
+    def guarded_position(self, loop: ast.AST, name: str) -> bool:
+        """
+        `for position, token in enumerate(<whole chain>)`: `name` is the token, and every read of it lies behind a test that
+        keeps the position below a bound (`if position >= opened: break` before it, `if position < opened:` around it).
+        """
+        tg = loop.target
+        if not (isinstance(tg, (ast.Tuple, ast.List)) and len(tg.elts) == 2 and all(isinstance(t, ast.Name) for t in tg.elts)) or tg.elts[1].id != name:
+            return False
+        pos = tg.elts[0].id
+        if pos == name or len(local_defs(self.fi, pos)) != 1 or len(local_defs(self.fi, name)) != 1 or pos in self.fi.params() or name in self.fi.params():
+            return False
+        uses = [n for n in ast.walk(self.fi.node) if isinstance(n, ast.Name) and n.id == name and isinstance(n.ctx, ast.Load)]
+        if not uses or any(loop not in list(ancestors(u)) for u in uses):
+            return False
+        for u in uses:
+            facts = _Paths(self.ctx, self.fi, u).facts()
+            if not any(f.op == "lt" and f.pos and isinstance(f.left, ast.Name) and f.left.id == pos and self.bound(f.right) for f in facts):
+                return False
+        return True
+
+    def below_bound(self, c: ast.AST, name: str, env: dict) -> bool:
+        """the condition holds only if the number in `name` is below a bound: name < B, B > name, a <= name < B, conjunctions with such"""
+        c = strip_cast(c)
+        if isinstance(c, ast.BoolOp) and isinstance(c.op, ast.And):
+            return any(self.below_bound(v, name, env) for v in c.values)
+        if isinstance(c, ast.Compare):
+            terms = [c.left, *c.comparators]
+            for l, op, r in zip(terms, c.ops, terms[1:]):
+                if isinstance(op, ast.Lt) and isinstance(l, ast.Name) and l.id == name and self.bound(_sub_env(r, env)):
+                    return True
+                if isinstance(op, ast.Gt) and isinstance(r, ast.Name) and r.id == name and self.bound(_sub_env(l, env)):
+                    return True
+        return False
+
+    def folded(self, f: ast.AST | None, acc: str | None, elem: str | None, env: dict) -> str | None:
+        """kind of f(<value of kind acc>, <value of kind elem>) for a two-argument callable: +, a lambda, a function nested in this one"""
+        if acc is None or elem is None:
+            return None
+        if f is None or const_value(f) is None or self.concatenates(f):
+            return "BYTES" if acc == elem == "BYTES" else None
+        f = resolve(self.fi, f)
+        if isinstance(f, ast.Lambda):
+            a = f.args
+            ps = [x.arg for x in [*a.posonlyargs, *a.args]]
+            if len(ps) != 2 or a.vararg or a.kwarg or a.kwonlyargs:
+                return None
+            return self.kind(f.body, {**env, ps[0]: acc, ps[1]: elem})
+        if isinstance(f, ast.Name) and not local_defs(self.fi, f.id) and f.id not in self.fi.params():
+            defs = [n for n in walk_no_nested(self.fi.node) if isinstance(n, ast.FunctionDef) and n.name == f.id and n is not self.fi.node]
+            if len(defs) == 1 and self.depth < 3 and not _is_generator(defs[0]):
+                a = defs[0].args
+                ps = [x.arg for x in [*a.posonlyargs, *a.args]]
+                info = getattr(defs[0], "_info", None)
+                if len(ps) != 2 or a.vararg or a.kwarg or a.kwonlyargs or info is None:
+                    return None
+                sub = _Prov(self.ctx, info, set(), {ps[0]: acc, ps[1]: elem}, self.depth + 1)
+                rets = [r for r in walk_no_nested(defs[0]) if isinstance(r, ast.Return) and r is not None]
+                falls = [u for u, lab in self.ctx.cfg(info).exit.pred if not isinstance(u.ast, ast.Return)]
+                if not rets or falls:
+                    return None
+                k = self.unify([sub.kind(r.value, {}) for r in rets])
+                return None if k == "*" else k
+        return None
+
     def bind_target(self, target: ast.AST, iter_kind: str | None) -> dict:
         """kinds of the names a loop / comprehension target binds"""
         if isinstance(target, ast.Name):
-            return {target.id: {"TOKENS": "TOKEN", "CHUNKS": "BYTES"}.get(iter_kind)}
+            return {target.id: _ELEM.get(iter_kind)}
         out = {n.id: None for n in ast.walk(target) if isinstance(n, ast.Name)}
         if iter_kind == "PAIRS" and isinstance(target, (ast.Tuple, ast.List)) and len(target.elts) == 2 and isinstance(target.elts[1], ast.Name):
             out[target.elts[1].id] = "TOKEN"
@@ -2089,19 +3573,45 @@ class _Prov:
         if isinstance(e, ast.BinOp) and isinstance(e.op, ast.Add):
             k = self.unify([self.kind(e.left, env), self.kind(e.right, env)])
             return k if k in ("BYTES", "CHUNKS", "TOKENS", "EMPTY", "*") else None
+        if isinstance(e, ast.Attribute):
+            if norm(e) == "self.token_chain":
+                return "CHAIN"                    # the whole chain: only a bounded part of it may be handed out
+            comps = self.components(e) if not env else None
+            return self.unify([pv.kind(x, {}) for pv, x in comps]) if comps else None
         if isinstance(e, ast.Subscript):
             if isinstance(e.slice, ast.Slice):
-                if norm(e.value) == "self.token_chain":
+                k = self.kind(e.value, env)
+                if k == "CHAIN":
                     step = const_value(e.slice.step) if e.slice.step is not None else 1
                     return "TOKENS" if isinstance(step, int) and not isinstance(step, bool) and step > 0 and self.bound(_sub_env(e.slice.upper, env)) else None
-                k = self.kind(e.value, env)
                 return k if k in ("BYTES", "CHUNKS", "TOKENS", "EMPTY") else None
             k = self.kind(e.value, env)
+            if k == "PAIR":
+                return "TOKEN" if const_value(e.slice) == 1 and not isinstance(const_value(e.slice), bool) else None
+            if k == "CHAIN":
+                if self.kind(e.slice, env) == "INDEX":
+                    return "TOKEN"
+                # a counter that a dominating test keeps below the bound: while index < opened: ... chain[index] ... index += 1
+                i = strip_cast(e.slice)
+                if not env and isinstance(i, ast.Name) and parent(e) is not None and self.counter(i.id):
+                    facts = _Paths(self.ctx, self.fi, e).facts()
+                    if any(f.op == "lt" and f.pos and isinstance(f.left, ast.Name) and f.left.id == i.id and self.bound(f.right) for f in facts):
+                        return "TOKEN"
+                return None
+            if k is None and not env and _step_of(e) is not None:
+                comps = self.components(e)
+                return self.unify([pv.kind(x, {}) for pv, x in comps]) if comps else None
             return {"TOKENS": "TOKEN", "CHUNKS": "BYTES"}.get(k)
         if isinstance(e, (ast.ListComp, ast.SetComp, ast.GeneratorExp)):
             env2 = dict(env)
             for g in e.generators:
-                env2.update(self.bind_target(g.target, self.kind(g.iter, env2)))
+                k = self.kind(g.iter, env2)
+                env2.update(self.bind_target(g.target, k))
+                if k == "CPAIRS" and isinstance(g.target, (ast.Tuple, ast.List)) and len(g.target.elts) == 2 and all(isinstance(t, ast.Name) for t in g.target.elts):
+                    # (position, token) pairs of the whole chain: the tokens whose position a filter keeps below the bound
+                    i, t = g.target.elts[0].id, g.target.elts[1].id
+                    if i != t and any(self.below_bound(c, i, env2) for c in g.ifs):
+                        env2[t] = "TOKEN"
             return {"BYTES": "CHUNKS", "TOKEN": "TOKENS"}.get(self.kind(e.elt, env2))
         if isinstance(e, ast.Call):
             c = chain(e.func)
@@ -2111,7 +3621,16 @@ class _Prov:
                 return "BYTES" if self.kind(e.args[0], env) in ("CHUNKS", "EMPTY") else None
             if c in ("list", "tuple", "sorted", "reversed", "iter", "deque", "collections.deque") and len(e.args) == 1:
                 k = self.kind(e.args[0], env)
+                if k in ("PAIRS", "CHAIN", "CPAIRS", "INDEXES") and c in ("list", "tuple", "iter") and not e.keywords:
+                    return k
+                if k == "PAIRS" and c == "reversed" and not e.keywords:
+                    return k
                 return k if k in ("CHUNKS", "TOKENS", "EMPTY") else None
+            lib = _lib(c)
+            if lib is not None and not any(isinstance(x, ast.Starred) for x in e.args) and all(k.arg is not None for k in e.keywords):
+                r = self.pipeline(lib, e, env)
+                if r is not NotImplemented:
+                    return r
             if c in ("list", "tuple", "deque", "collections.deque") and not e.args and not e.keywords:
                 return "EMPTY"
             if c in ("bytes", "bytearray") and not e.keywords:
@@ -2120,10 +3639,11 @@ class _Prov:
                 out = arg(e, 0, "tokens")
                 return "PAYLOAD" if out is not None and len(e.args) + len(e.keywords) == 1 and self.kind(out, env) == "BYTES" else None
             if c == "enumerate" and e.args and len(e.args) <= 2:
-                return "PAIRS" if self.kind(e.args[0], env) == "TOKENS" else None
-            if c in ("islice", "itertools.islice") and e.args:
                 k = self.kind(e.args[0], env)
-                return k if k in ("CHUNKS", "TOKENS") else None
+                if k == "CHAIN":
+                    start = arg(e, 1, "start")
+                    return "CPAIRS" if start is None or (const_value(start) == 0 and not isinstance(const_value(start), bool)) else None
+                return "PAIRS" if k == "TOKENS" else None
             if env:
                 return None                       # a helper called with comprehension variables: not followed
             fr = _follow(self.ctx, self.fi, e, "p_", generators=True)
@@ -2142,6 +3662,34 @@ class _Prov:
                 k = self.unify([sub.kind(r.value, {}) for r in rets])
                 return None if k == "*" else k
         return None
+
+
+_ELEM = {"TOKENS": "TOKEN", "CHUNKS": "BYTES", "PAIRS": "PAIR", "INDEXES": "INDEX"}
+_CONT = {"TOKEN": "TOKENS", "BYTES": "CHUNKS", "PAIR": "PAIRS"}
+
+
+class _PairIndex(ast.NodeTransformer):
+    """p[0] -> the name `p#0` (the position in a (position, token) pair p)"""
+
+    def __init__(self, name: str) -> None:
+        self.name = name
+
+    def visit_Subscript(self, n: ast.Subscript):  # noqa: N802
+        if isinstance(n.value, ast.Name) and n.value.id == self.name and const_value(n.slice) == 0 and not isinstance(const_value(n.slice), bool):
+            return ast.Name(id=self.name + "#0", ctx=ast.Load())
+        return self.generic_visit(n)
+
+
+def _lib(c: str | None) -> str | None:
+    """the function named by a callee chain when it is a builtin or comes from itertools / functools / operator, else None"""
+    if not c:
+        return None
+    parts = c.split(".")
+    if len(parts) == 1:
+        return c
+    if parts[0] in ("itertools", "functools", "operator") and len(parts) == 2:
+        return parts[1]
+    return None
 
 
 def _sub_env(e: ast.AST | None, env: dict) -> ast.AST | None:
@@ -2231,6 +3779,8 @@ def rule_permitted(ctx: Ctx) -> None:  # noqa: C901, PLR0912
         call = parent(p) if isinstance(p, ast.Attribute) else None
         if isinstance(st, ast.Assign) and len(st.targets) == 1 and st.targets[0] is p and isinstance(p, ast.Subscript) and not isinstance(p.slice, ast.Slice):
             key, val = p.slice, st.value
+        elif isinstance(st, ast.AugAssign) and st.target is a and isinstance(st.op, ast.BitOr) and isinstance(st.value, ast.Dict) and len(st.value.keys) == 1 and st.value.keys[0] is not None:
+            key, val = st.value.keys[0], st.value.values[0]      # permissions |= {k: v}
         elif isinstance(call, ast.Call) and isinstance(st, ast.Expr) and st.value is call and not call.keywords:
             if p.attr == "update" and len(call.args) == 1 and isinstance(call.args[0], ast.Dict) and len(call.args[0].keys) == 1 and call.args[0].keys[0] is not None:
                 key, val = call.args[0].keys[0], call.args[0].values[0]
@@ -2331,6 +3881,11 @@ WITNESSES = [
     {"name": "time slot stores expiry not registration", "file": IC, "rule": "should-sign",
      "old": "        self.known_attestation_hashes[attribute_hash] = (name, time(), public_key, metadata)",
      "new": "        self.known_attestation_hashes[attribute_hash] = (name, public_key, time(), metadata)"},
+    {"name": "registering one hash renews the other registrations of the subject", "file": IC, "rule": "should-sign",
+     "old": "        self.known_attestation_hashes[attribute_hash] = (name, time(), public_key, metadata)",
+     "new": "        for known_hash, known in self.known_attestation_hashes.items():\n            if known[2] == public_key:\n"
+            "                self.known_attestation_hashes[known_hash] = (known[0], time(), *known[2:])\n"
+            "        self.known_attestation_hashes[attribute_hash] = (name, time(), public_key, metadata)"},
     {"name": "attest without should_sign", "file": IC, "rule": "attest-only-if-consented",
      "old": "                    if self.should_sign(pseudonym, credential.metadata):\n", "new": "                    if credential.metadata is not None:\n"},
     {"name": "attest although disclosure incorrect", "file": IC, "rule": "attest-only-if-consented",
